@@ -1,1 +1,1926 @@
-/- C05 — theorems (placeholder until the property is built). -/
+/-
+  C05 — Configuration checking completes, preserves and polices every parameter.
+
+  The theorems are about the executable model `Model/Config.lean` instantiated with the tables the
+  translator regenerated from the step modules on this run (`Generated/Schemas.lean`), and about
+  the hand-written documentation tables of `Model/ConfigSpec.lean`.
+
+  Contents
+    1. dictionaries (`d[k] = v`, lookup)
+    2. the default-insertion sequence of any class (`runActions`): lookup table of the result,
+       key order of the result, idempotence — for every action list satisfying `wfActions`
+    3. `classCheck`: user keys kept, defaults added, idempotent, accepted iff guards + schema
+    4. the generated tables: well-formed, defaults = documented defaults            (`decide`)
+    5. every generated schema entry against its documented domain, for ALL values
+    6. counterexamples (findings): NaN inside a list, multi-character band names,
+       a reused machine
+    7. from entries to whole steps: a step the documentation refuses is refused, a step the
+       documentation accepts is accepted — for every class, every configuration
+    8. the defaults of the input section
+    9. `PandoraMachine.check_conf` on a fresh machine: `pipeline_cfg` = the configured steps, in
+       order, each with what its class returned (both rounds)
+   10. `update_conf` on a dictionary of leaves: user values stored (rewritten) at their keys,
+       defaults kept, positions
+-/
+import PandoraModel.Model.ConfigSpec
+import PandoraModel.Generated.Schemas
+
+namespace Pandora.C05
+open Pandora Pandora.Config Pandora.ConfigSpec
+
+/-! ### Dictionaries -/
+
+theorem hasKey_iff_mem_keys (d : Dict) (k : String) : Dict.hasKey d k = true ↔ k ∈ Dict.keys d := by
+  induction d with
+  | nil => simp [Dict.hasKey, Dict.lookup, Dict.keys]
+  | cons kv rest ih =>
+    obtain ⟨k', v⟩ := kv
+    by_cases h : k' = k
+    · simp [Dict.hasKey, Dict.lookup, Dict.keys, h]
+    · have : Dict.hasKey ((k', v) :: rest) k = Dict.hasKey rest k := by
+        simp [Dict.hasKey, Dict.lookup, h]
+      rw [this, ih]
+      simp [Dict.keys, List.mem_cons, Ne.symm h]
+
+theorem lookup_none_iff (d : Dict) (k : String) : Dict.lookup d k = none ↔ k ∉ Dict.keys d := by
+  rw [← hasKey_iff_mem_keys]
+  simp [Dict.hasKey]
+
+theorem setKey_absent (d : Dict) (k : String) (v : JVal) (h : Dict.lookup d k = none) :
+    Dict.setKey d k v = d ++ [(k, v)] := by
+  induction d with
+  | nil => simp [Dict.setKey]
+  | cons kv rest ih =>
+    obtain ⟨k', v'⟩ := kv
+    by_cases hk : k' = k
+    · simp [Dict.lookup, hk] at h
+    · simp [Dict.lookup, hk] at h
+      simp [Dict.setKey, hk, ih h]
+
+theorem keys_setKey_present (d : Dict) (k : String) (v : JVal) (h : Dict.lookup d k ≠ none) :
+    Dict.keys (Dict.setKey d k v) = Dict.keys d := by
+  induction d with
+  | nil => simp [Dict.lookup] at h
+  | cons kv rest ih =>
+    obtain ⟨k', v'⟩ := kv
+    by_cases hk : k' = k
+    · simp [Dict.setKey, hk, Dict.keys]
+    · simp [Dict.lookup, hk] at h
+      have := ih h
+      simp [Dict.setKey, hk, Dict.keys] at this ⊢
+      exact this
+
+theorem lookup_setKey (d : Dict) (k k' : String) (v : JVal) :
+    Dict.lookup (Dict.setKey d k v) k' = if k = k' then some v else Dict.lookup d k' := by
+  induction d with
+  | nil =>
+    by_cases h : k = k' <;> simp [Dict.setKey, Dict.lookup, h]
+  | cons kv rest ih =>
+    obtain ⟨k0, v0⟩ := kv
+    by_cases h0 : k0 = k
+    · subst h0
+      by_cases h : k0 = k' <;> simp [Dict.setKey, Dict.lookup, h]
+    · by_cases h : k = k'
+      · subst h
+        simp [Dict.setKey, Dict.lookup, h0, ih]
+      · by_cases h1 : k0 = k'
+        · subst h1
+          simp [Dict.setKey, Dict.lookup, h0, h]
+        · simp [Dict.setKey, Dict.lookup, h0, h1, ih, h]
+
+
+/-! ### The default-insertion sequence of a class's `check_conf` -/
+
+/-- keys a default is inserted for, in order -/
+def defaultKeys : List Action → List String
+  | [] => []
+  | .default k _ :: r => k :: defaultKeys r
+  | .defaultElifNaN k _ :: r => k :: defaultKeys r
+  | _ :: r => defaultKeys r
+
+/-- keys whose user value `"NaN"` is replaced by the float -/
+def nanKeys : List Action → List String
+  | [] => []
+  | .defaultElifNaN k _ :: r => k :: nanKeys r
+  | _ :: r => nanKeys r
+
+/-- the default the sequence inserts for `k` -/
+def defaultOf : List Action → String → Option JVal
+  | [], _ => none
+  | .default k v :: r, key => if k = key then some v else defaultOf r key
+  | .defaultElifNaN k v :: r, key => if k = key then some v else defaultOf r key
+  | _ :: r, key => defaultOf r key
+
+/-- what a user value becomes -/
+def nanFix (acts : List Action) (k : String) (v : JVal) : JVal :=
+  if (nanKeys acts).contains k && pyEq v (.str "NaN") then .float .nan else v
+
+/-- well-formed action list: one default per key, the value of a `"NaN"`-rewriting default is not
+    itself `"NaN"`, and a guard `cfg[k] != v` is compatible with what follows it (no later rewrite
+    of `k`, a later default of `k` passes the guard) -/
+def wfActions : List Action → Bool
+  | [] => true
+  | .default k _ :: r => !(defaultKeys r).contains k && wfActions r
+  | .defaultElifNaN k v :: r => !(defaultKeys r).contains k && !(pyEq v (.str "NaN")) && wfActions r
+  | .guardNe k v _ :: r =>
+    !(nanKeys r).contains k && (match defaultOf r k with | some d => pyEq d v | none => true) && wfActions r
+  | .refuseGrids :: r => wfActions r
+
+theorem nanKeys_sub_defaultKeys (acts : List Action) (k : String) (h : k ∈ nanKeys acts) :
+    k ∈ defaultKeys acts := by
+  induction acts with
+  | nil => simp [nanKeys] at h
+  | cons a r ih =>
+    cases a <;> simp [nanKeys, defaultKeys] at h ⊢
+    · exact Or.inr (ih h)
+    · rcases h with h | h
+      · exact Or.inl h
+      · exact Or.inr (ih h)
+    · exact ih h
+    · exact ih h
+
+theorem defaultOf_none_of_not_mem (acts : List Action) (k : String) (h : k ∉ defaultKeys acts) :
+    defaultOf acts k = none := by
+  induction acts with
+  | nil => simp [defaultOf]
+  | cons a r ih =>
+    cases a <;> simp [defaultKeys] at h <;> simp [defaultOf, *]
+    · rename_i k0 v0; intro e; exact absurd e.symm h.1
+    · rename_i k0 v0; intro e; exact absurd e.symm h.1
+
+theorem pyEq_nan_NaN : pyEq (.float .nan) (.str "NaN") = false := by
+  simp [pyEq, JVal.toNum?]
+
+theorem nanFix_nil (k : String) (v : JVal) : nanFix [] k v = v := by simp [nanFix, nanKeys]
+
+theorem nanFix_of_not_mem (acts : List Action) (k : String) (v : JVal) (h : k ∉ nanKeys acts) :
+    nanFix acts k v = v := by simp [nanFix, h]
+
+@[simp] theorem nanFix_default (k0 : String) (v0 : JVal) (rest : List Action) (k : String) (u : JVal) :
+    nanFix (.default k0 v0 :: rest) k u = nanFix rest k u := by simp [nanFix, nanKeys]
+
+@[simp] theorem nanFix_guard (k0 : String) (v0 : JVal) (e : Err) (rest : List Action) (k : String) (u : JVal) :
+    nanFix (.guardNe k0 v0 e :: rest) k u = nanFix rest k u := by simp [nanFix, nanKeys]
+
+@[simp] theorem nanFix_refuse (rest : List Action) (k : String) (u : JVal) :
+    nanFix (.refuseGrids :: rest) k u = nanFix rest k u := by simp [nanFix, nanKeys]
+
+theorem nanFix_elif_ne (k0 : String) (v0 : JVal) (rest : List Action) (k : String) (u : JVal) (h : k0 ≠ k) :
+    nanFix (.defaultElifNaN k0 v0 :: rest) k u = nanFix rest k u := by
+  have : ¬ k = k0 := fun e => h e.symm
+  simp [nanFix, nanKeys, this]
+
+theorem nanFix_elif_self_nan (k0 : String) (v0 : JVal) (rest : List Action) (u : JVal)
+    (h : pyEq u (.str "NaN") = true) : nanFix (.defaultElifNaN k0 v0 :: rest) k0 u = .float .nan := by
+  simp [nanFix, nanKeys, h]
+
+theorem nanFix_elif_self_not (k0 : String) (v0 : JVal) (rest : List Action) (u : JVal)
+    (h : ¬ pyEq u (.str "NaN") = true) : nanFix (.defaultElifNaN k0 v0 :: rest) k0 u = u := by
+  simp [nanFix, nanKeys, h]
+
+theorem runActions_ok_cons {l r : ImgInfo} {a : Action} {rest : List Action} {cfg out : Dict}
+    (h : runActions l r (a :: rest) cfg = .ok out) :
+    ∃ cfg', runAction l r cfg a = .ok cfg' ∧ runActions l r rest cfg' = .ok out := by
+  simp only [runActions] at h
+  cases hA : runAction l r cfg a with
+  | error e => simp [hA] at h
+  | ok cfg' => exact ⟨cfg', rfl, by simpa [hA] using h⟩
+
+/-- every user key keeps its value (up to the `"NaN"` rewrite) and every omitted key gets the
+    default of the sequence — as a lookup table -/
+theorem runActions_lookup (l r : ImgInfo) (acts : List Action) :
+    ∀ (cfg out : Dict), wfActions acts = true → runActions l r acts cfg = .ok out → ∀ k,
+      Dict.lookup out k =
+        match Dict.lookup cfg k with
+        | some u => some (nanFix acts k u)
+        | none => defaultOf acts k := by
+  induction acts with
+  | nil =>
+    intro cfg out _ h k
+    simp [runActions] at h
+    subst h
+    cases Dict.lookup cfg k <;> simp [nanFix_nil, defaultOf]
+  | cons a rest ih =>
+    intro cfg out hwf h k
+    obtain ⟨cfg', hA, hR⟩ := runActions_ok_cons h
+    cases a with
+    | default k0 v0 =>
+      simp only [wfActions, Bool.and_eq_true, Bool.not_eq_true', List.contains_eq_mem,
+        decide_eq_false_iff_not] at hwf
+      have hnd : k0 ∉ defaultKeys rest := by simpa using hwf.1
+      have hnn : k0 ∉ nanKeys rest := fun hm => hnd (nanKeys_sub_defaultKeys rest k0 hm)
+      have ih' := ih cfg' out hwf.2 hR k
+      simp only [runAction] at hA
+      by_cases hk : Dict.hasKey cfg k0 = true
+      · simp [hk] at hA; subst hA
+        rw [ih']
+        cases hl : Dict.lookup cfg k with
+        | some u => simp
+        | none =>
+          have : k0 ≠ k := by
+            intro e; subst e; simp [Dict.hasKey, hl] at hk
+          simp [defaultOf, this]
+      · simp [hk] at hA; subst hA
+        rw [ih', lookup_setKey]
+        by_cases e : k0 = k
+        · subst e
+          have hl : Dict.lookup cfg k0 = none := by
+            simpa [Dict.hasKey] using hk
+          simp [hl, defaultOf, nanFix_of_not_mem rest k0 v0 hnn]
+        · simp [e, defaultOf]
+    | defaultElifNaN k0 v0 =>
+      simp only [wfActions, Bool.and_eq_true, Bool.not_eq_true', List.contains_eq_mem,
+        decide_eq_false_iff_not] at hwf
+      have hnd : k0 ∉ defaultKeys rest := by simpa using hwf.1.1
+      have hnn : k0 ∉ nanKeys rest := fun hm => hnd (nanKeys_sub_defaultKeys rest k0 hm)
+      have ih' := ih cfg' out hwf.2 hR k
+      simp only [runAction] at hA
+      cases hl0 : Dict.lookup cfg k0 with
+      | none =>
+        simp [hl0] at hA; subst hA
+        rw [ih', lookup_setKey]
+        by_cases e : k0 = k
+        · subst e
+          simp [hl0, defaultOf, nanFix_of_not_mem rest k0 v0 hnn]
+        · simp [e, defaultOf]
+          cases Dict.lookup cfg k <;> simp [nanFix_elif_ne _ _ _ _ _ e]
+      | some cur =>
+        simp [hl0] at hA
+        by_cases hp : pyEq cur (.str "NaN") = true
+        · simp [hp] at hA; subst hA
+          rw [ih', lookup_setKey]
+          by_cases e : k0 = k
+          · subst e
+            simp [hl0, nanFix_elif_self_nan _ _ _ _ hp, nanFix_of_not_mem rest k0 _ hnn]
+          · simp [e]
+            cases Dict.lookup cfg k <;> simp [nanFix_elif_ne _ _ _ _ _ e, defaultOf, e]
+        · simp [hp] at hA; subst hA
+          rw [ih']
+          by_cases e : k0 = k
+          · subst e
+            simp [hl0, nanFix_elif_self_not _ _ _ _ hp, nanFix_of_not_mem rest k0 _ hnn]
+          · cases Dict.lookup cfg k <;> simp [nanFix_elif_ne _ _ _ _ _ e, defaultOf, e]
+    | guardNe k0 v0 e0 =>
+      simp only [wfActions, Bool.and_eq_true] at hwf
+      have ih' := ih cfg' out hwf.2 hR k
+      have : cfg' = cfg := by
+        simp only [runAction] at hA
+        cases hl0 : Dict.lookup cfg k0 with
+        | none => simp [hl0] at hA; exact hA.symm
+        | some cur =>
+          simp [hl0] at hA
+          by_cases hp : pyEq cur v0 = true
+          · simp [hp] at hA; exact hA.symm
+          · simp [hp] at hA
+      subst this
+      rw [ih']
+      cases Dict.lookup cfg' k <;> simp [defaultOf]
+    | refuseGrids =>
+      simp only [wfActions] at hwf
+      have ih' := ih cfg' out hwf hR k
+      have : cfg' = cfg := by
+        simp only [runAction] at hA
+        by_cases hg : (l.dispSource.isStr || r.dispSource.isStr) = true
+        · simp [hg] at hA
+        · simp [hg] at hA; exact hA.symm
+      subst this
+      rw [ih']
+      cases Dict.lookup cfg' k <;> simp [defaultOf]
+
+/-- the keys of the result: the user's keys in the user's order, then the omitted defaulted keys
+    in the order of the sequence -/
+theorem runActions_keys (l r : ImgInfo) (acts : List Action) :
+    ∀ (cfg out : Dict), wfActions acts = true → runActions l r acts cfg = .ok out →
+      Dict.keys out = Dict.keys cfg ++ (defaultKeys acts).filter (fun k => !(Dict.keys cfg).contains k) := by
+  induction acts with
+  | nil =>
+    intro cfg out _ h
+    simp [runActions] at h
+    subst h
+    simp [defaultKeys]
+  | cons a rest ih =>
+    intro cfg out hwf h
+    obtain ⟨cfg', hA, hR⟩ := runActions_ok_cons h
+    cases a with
+    | default k0 v0 =>
+      simp only [wfActions, Bool.and_eq_true, Bool.not_eq_true', List.contains_eq_mem,
+        decide_eq_false_iff_not] at hwf
+      have hnd : k0 ∉ defaultKeys rest := by simpa using hwf.1
+      have ih' := ih cfg' out hwf.2 hR
+      simp only [runAction] at hA
+      by_cases hk : Dict.hasKey cfg k0 = true
+      · simp [hk] at hA; subst hA
+        have hm : k0 ∈ Dict.keys cfg := (hasKey_iff_mem_keys cfg k0).1 hk
+        rw [ih']
+        simp [defaultKeys, hm]
+      · simp [hk] at hA; subst hA
+        have hl : Dict.lookup cfg k0 = none := by simpa [Dict.hasKey] using hk
+        have hm : k0 ∉ Dict.keys cfg := (lookup_none_iff cfg k0).1 hl
+        rw [ih', setKey_absent cfg k0 v0 hl]
+        simp only [Dict.keys, List.map_append, List.map_cons, List.map_nil, defaultKeys, List.filter_cons]
+        simp only [Dict.keys] at hm
+        simp [hm]
+        apply List.filter_congr
+        intro x hx
+        have : x ≠ k0 := fun e => hnd (e ▸ hx)
+        simp [this]
+    | defaultElifNaN k0 v0 =>
+      simp only [wfActions, Bool.and_eq_true, Bool.not_eq_true', List.contains_eq_mem,
+        decide_eq_false_iff_not] at hwf
+      have hnd : k0 ∉ defaultKeys rest := by simpa using hwf.1.1
+      have ih' := ih cfg' out hwf.2 hR
+      simp only [runAction] at hA
+      cases hl0 : Dict.lookup cfg k0 with
+      | none =>
+        simp [hl0] at hA; subst hA
+        have hm : k0 ∉ Dict.keys cfg := (lookup_none_iff cfg k0).1 hl0
+        rw [ih', setKey_absent cfg k0 v0 hl0]
+        simp only [Dict.keys, List.map_append, List.map_cons, List.map_nil, defaultKeys, List.filter_cons]
+        simp only [Dict.keys] at hm
+        simp [hm]
+        apply List.filter_congr
+        intro x hx
+        have : x ≠ k0 := fun e => hnd (e ▸ hx)
+        simp [this]
+      | some cur =>
+        have hm : k0 ∈ Dict.keys cfg := by
+          rw [← hasKey_iff_mem_keys]; simp [Dict.hasKey, hl0]
+        have hkeys : Dict.keys cfg' = Dict.keys cfg := by
+          simp [hl0] at hA
+          by_cases hp : pyEq cur (.str "NaN") = true
+          · simp [hp] at hA; subst hA
+            exact keys_setKey_present cfg k0 _ (by simp [hl0])
+          · simp [hp] at hA; subst hA; rfl
+        rw [ih', hkeys]
+        simp [defaultKeys, hm]
+    | guardNe k0 v0 e0 =>
+      simp only [wfActions, Bool.and_eq_true] at hwf
+      have ih' := ih cfg' out hwf.2 hR
+      have : cfg' = cfg := by
+        simp only [runAction] at hA
+        cases hl0 : Dict.lookup cfg k0 with
+        | none => simp [hl0] at hA; exact hA.symm
+        | some cur =>
+          simp [hl0] at hA
+          by_cases hp : pyEq cur v0 = true
+          · simp [hp] at hA; exact hA.symm
+          · simp [hp] at hA
+      subst this
+      rw [ih']; simp [defaultKeys]
+    | refuseGrids =>
+      simp only [wfActions] at hwf
+      have ih' := ih cfg' out hwf hR
+      have : cfg' = cfg := by
+        simp only [runAction] at hA
+        by_cases hg : (l.dispSource.isStr || r.dispSource.isStr) = true
+        · simp [hg] at hA
+        · simp [hg] at hA; exact hA.symm
+      subst this
+      rw [ih']; simp [defaultKeys]
+
+/-- running the sequence again on its own result changes nothing -/
+theorem runActions_idem (l r : ImgInfo) (acts : List Action) :
+    ∀ (cfg out : Dict), wfActions acts = true → runActions l r acts cfg = .ok out →
+      runActions l r acts out = .ok out := by
+  induction acts with
+  | nil => intro cfg out _ _; simp [runActions]
+  | cons a rest ih =>
+    intro cfg out hwf h
+    obtain ⟨cfg', hA, hR⟩ := runActions_ok_cons h
+    have hwfr : wfActions rest = true := by
+      cases a <;> simp only [wfActions, Bool.and_eq_true] at hwf
+      · exact hwf.2
+      · exact hwf.2
+      · exact hwf.2
+      · exact hwf
+    have ihR := ih cfg' out hwfr hR
+    have hlook := runActions_lookup l r rest cfg' out hwfr hR
+    suffices hS : runAction l r out a = .ok out by
+      simp [runActions, hS, ihR]
+    cases a with
+    | default k0 v0 =>
+      -- cfg' has the key, hence out has it
+      have hc : Dict.hasKey cfg' k0 = true := by
+        simp only [runAction] at hA
+        by_cases hk : Dict.hasKey cfg k0 = true
+        · simp [hk] at hA; subst hA; exact hk
+        · simp [hk] at hA; subst hA
+          simp [Dict.hasKey, lookup_setKey]
+      have : Dict.hasKey out k0 = true := by
+        have := hlook k0
+        simp only [Dict.hasKey] at hc ⊢
+        cases hl : Dict.lookup cfg' k0 with
+        | none => simp [hl] at hc
+        | some u => simp [hl] at this; simp [this]
+      simp [runAction, this]
+    | defaultElifNaN k0 v0 =>
+      simp only [wfActions, Bool.and_eq_true, Bool.not_eq_true', List.contains_eq_mem,
+        decide_eq_false_iff_not] at hwf
+      have hnd : k0 ∉ defaultKeys rest := by simpa using hwf.1.1
+      have hnn : k0 ∉ nanKeys rest := fun hm => hnd (nanKeys_sub_defaultKeys rest k0 hm)
+      have hv0 : pyEq v0 (.str "NaN") = false := hwf.1.2
+      -- the value of k0 in cfg' is not "NaN"
+      have hc : ∃ x, Dict.lookup cfg' k0 = some x ∧ pyEq x (.str "NaN") = false := by
+        simp only [runAction] at hA
+        cases hl0 : Dict.lookup cfg k0 with
+        | none =>
+          simp [hl0] at hA; subst hA
+          exact ⟨v0, by simp [lookup_setKey], hv0⟩
+        | some cur =>
+          simp [hl0] at hA
+          by_cases hp : pyEq cur (.str "NaN") = true
+          · simp [hp] at hA; subst hA
+            exact ⟨.float .nan, by simp [lookup_setKey], pyEq_nan_NaN⟩
+          · simp [hp] at hA; subst hA
+            exact ⟨cur, hl0, by simpa using hp⟩
+      obtain ⟨x, hx, hxn⟩ := hc
+      have := hlook k0
+      simp [hx, nanFix_of_not_mem rest k0 x hnn] at this
+      simp [runAction, this, hxn]
+    | guardNe k0 v0 e0 =>
+      simp only [wfActions, Bool.and_eq_true, Bool.not_eq_true', List.contains_eq_mem,
+        decide_eq_false_iff_not] at hwf
+      have hnn : k0 ∉ nanKeys rest := by simpa using hwf.1.1
+      have hpass : cfg' = cfg ∧ (∀ cur, Dict.lookup cfg k0 = some cur → pyEq cur v0 = true) := by
+        simp only [runAction] at hA
+        cases hl0 : Dict.lookup cfg k0 with
+        | none => simp [hl0] at hA; exact ⟨hA.symm, by intro cur hc; simp at hc⟩
+        | some cur =>
+          simp [hl0] at hA
+          by_cases hp : pyEq cur v0 = true
+          · simp [hp] at hA; exact ⟨hA.symm, by intro c hc; simp at hc; subst hc; exact hp⟩
+          · simp [hp] at hA
+      obtain ⟨hcfg, hp⟩ := hpass
+      subst hcfg
+      have := hlook k0
+      cases hl0 : Dict.lookup cfg' k0 with
+      | some cur =>
+        simp [hl0, nanFix_of_not_mem rest k0 cur hnn] at this
+        simp [runAction, this, hp cur hl0]
+      | none =>
+        simp [hl0] at this
+        cases hd : defaultOf rest k0 with
+        | none => simp [hd] at this; simp [runAction, this]
+        | some d =>
+          have hdv : pyEq d v0 = true := by
+            have := hwf.1.2; simp [hd] at this; exact this
+          simp [hd] at this
+          simp [runAction, this, hdv]
+    | refuseGrids =>
+      have : cfg' = cfg := by
+        simp only [runAction] at hA
+        by_cases hg : (l.dispSource.isStr || r.dispSource.isStr) = true
+        · simp [hg] at hA
+        · simp [hg] at hA; exact hA.symm
+      simp only [runAction] at hA ⊢
+      by_cases hg : (l.dispSource.isStr || r.dispSource.isStr) = true
+      · simp [hg] at hA
+      · simp [hg]
+
+/-! ### 3. `classCheck` -/
+
+theorem classCheck_ok {o : Oracle} {c : ClassDesc} {l r : ImgInfo} {cfg out : Dict}
+    (h : classCheck o c l r cfg = .ok out) :
+    runActions l r c.actions cfg = .ok out ∧ Schema.accepts o (.dict c.schema) (.obj out) = true := by
+  unfold classCheck at h
+  cases hA : runActions l r c.actions cfg with
+  | error e => simp [hA] at h
+  | ok cfg' =>
+    simp [hA] at h
+    by_cases hs : Schema.accepts o (.dict c.schema) (.obj cfg') = true
+    · simp [hs] at h; subst h; exact ⟨rfl, hs⟩
+    · simp [hs] at h
+
+/-- acceptance is exactly: the guards pass and the completed dictionary validates -/
+theorem classCheck_ok_iff (o : Oracle) (c : ClassDesc) (l r : ImgInfo) (cfg out : Dict) :
+    classCheck o c l r cfg = .ok out ↔
+      runActions l r c.actions cfg = .ok out ∧ Schema.accepts o (.dict c.schema) (.obj out) = true := by
+  constructor
+  · exact classCheck_ok
+  · intro ⟨h1, h2⟩
+    simp [classCheck, h1, h2]
+
+/-- **user keys kept**: every key the user supplied is in the result with its value (the string
+    `"NaN"` of a NaN-rewriting key becomes the float) … -/
+theorem classCheck_user_values_kept {o : Oracle} {c : ClassDesc} {l r : ImgInfo} {cfg out : Dict}
+    (hwf : wfActions c.actions = true) (h : classCheck o c l r cfg = .ok out) (k : String) (u : JVal)
+    (hk : Dict.lookup cfg k = some u) : Dict.lookup out k = some (nanFix c.actions k u) := by
+  have := runActions_lookup l r c.actions cfg out hwf (classCheck_ok h).1 k
+  simpa [hk] using this
+
+/-- … and at its position: the user's keys, in the user's order, are the first keys of the result -/
+theorem classCheck_user_positions_kept {o : Oracle} {c : ClassDesc} {l r : ImgInfo} {cfg out : Dict}
+    (hwf : wfActions c.actions = true) (h : classCheck o c l r cfg = .ok out) :
+    (Dict.keys out).take (Dict.keys cfg).length = Dict.keys cfg := by
+  rw [runActions_keys l r c.actions cfg out hwf (classCheck_ok h).1]
+  simp
+
+/-- **defaults added**: every omitted key with a default appears with that default, after the
+    user's keys, in the order of the sequence; nothing else is added -/
+theorem classCheck_defaults_added {o : Oracle} {c : ClassDesc} {l r : ImgInfo} {cfg out : Dict}
+    (hwf : wfActions c.actions = true) (h : classCheck o c l r cfg = .ok out) :
+    (∀ k, Dict.lookup cfg k = none → Dict.lookup out k = defaultOf c.actions k) ∧
+    Dict.keys out = Dict.keys cfg ++ (defaultKeys c.actions).filter (fun k => !(Dict.keys cfg).contains k) := by
+  refine ⟨?_, runActions_keys l r c.actions cfg out hwf (classCheck_ok h).1⟩
+  intro k hk
+  have := runActions_lookup l r c.actions cfg out hwf (classCheck_ok h).1 k
+  simpa [hk] using this
+
+/-- **idempotent**: checking the returned dictionary again returns it unchanged -/
+theorem classCheck_idempotent {o : Oracle} {c : ClassDesc} {l r : ImgInfo} {cfg out : Dict}
+    (hwf : wfActions c.actions = true) (h : classCheck o c l r cfg = .ok out) :
+    classCheck o c l r out = .ok out := by
+  obtain ⟨h1, h2⟩ := classCheck_ok h
+  simp [classCheck, runActions_idem l r c.actions cfg out hwf h1, h2]
+
+/-! ### 4. The generated tables -/
+
+open Pandora.Generated.Schemas
+
+/-- every built-in class of the source, with its step kind -/
+def allClasses : List (String × ClassDesc) :=
+  registry.flatMap (fun k => k.classes.map (fun c => (k.kind, c)))
+
+/-- the default sequences of the source are well-formed (so the theorems of §2–§3 apply) -/
+theorem generated_wf : allClasses.all (fun kc => wfActions kc.2.actions) = true := by decide
+
+theorem generated_wf_of_mem {kc : String × ClassDesc} (h : kc ∈ allClasses) :
+    wfActions kc.2.actions = true := by
+  have := generated_wf
+  rw [List.all_eq_true] at this
+  exact this kc h
+
+/-- the class of the source and the documented class agree on: the parameter set, which
+    parameters have a default, the documented default values, the optional key, the method key -/
+def defaultsAgree (c : ClassDesc) (d : DocClass) : Bool :=
+  d.params.all (fun p =>
+    match p.default with
+    | .value v => defaultOf c.actions p.name == some v
+    | .optional => (defaultOf c.actions p.name).isNone && c.schema.any (fun e => e.1 == p.name && e.2.1)
+    | .unsettled => (defaultOf c.actions p.name).isSome) &&
+  (defaultKeys c.actions).all (fun k => d.params.any (fun p => p.name == k)) &&
+  c.schema.all (fun e => e.1 == d.methodKey || d.params.any (fun p => p.name == e.1)) &&
+  d.params.all (fun p => c.schema.any (fun e => e.1 == p.name)) &&
+  c.schema.any (fun e => e.1 == d.methodKey && !e.2.1)
+
+/-- **defaults documented**: window_size 5, subpix 1, cbca 30.0/5, invalid_disparity −9999,
+    filter_size 3, sigma 2.0/6.0, eta 0.7/0.01, cross_checking_threshold 1.0, num_scales 2,
+    scale_factor 2, marge 1 (and the others of the user guide): what the source inserts is what
+    the documentation table says, for every registered method of every class -/
+theorem generated_defaults_documented :
+    allClasses.all (fun kc => kc.2.names.all (fun m =>
+      match docClass? kc.1 m with
+      | some d => defaultsAgree kc.2 d
+      | none => false)) = true := by decide
+
+/-- every documented method is a registered one (no documented method is missing in the source) -/
+theorem documented_methods_registered :
+    docTable.all (fun d => d.methods.all (fun m =>
+      allClasses.any (fun kc => kc.1 == d.kind && kc.2.names.contains m))) = true := by decide
+
+/-- the method-name entry of a class's schema accepts the names the class is registered under -/
+theorem method_entry_accepts_names :
+    registry.all (fun k => k.classes.all (fun c => c.names.all (fun m =>
+      Schema.accepts noOracle (.dict (c.schema.filter (fun e => e.1 == k.methodKey)))
+        (.obj [(k.methodKey, .str m)])))) = true := by decide
+
+/-! ### 5. Every schema entry against its documented domain, for all values -/
+
+/-- what "the check agrees with the documentation on this value" means -/
+def Agrees (b : Bool) : Dom → Prop
+  | .accept => b = true
+  | .reject => b = false
+  | .undecided => True
+
+/-- the schema of key `k` in class `c` (the unsatisfiable `Or()` when absent) -/
+def entry (c : ClassDesc) (k : String) : Schema :=
+  match c.schema.find? (fun e => e.1 == k) with
+  | some e => e.2.2
+  | none => .any []
+
+macro "schema_simp" : tactic => `(tactic|
+  simp [entry, List.find?, Schema.accepts, Schema.acceptsAll, Schema.acceptsAny, Schema.keptByOr,
+    PyType.isInstance, PyType.isExactly, Expr.holds, Expr.eval, pyCmp, pyMod, pyBitand, pyEq, cmpNum,
+    JVal.toNum?, JVal.truthy, JVal.isNull, Num.lt, Num.le, Num.eq, DomKind.dom, Agrees, ofBool,
+    npIsnanTruth, npArray, fIsNan, npIsscalarVal, FVal.lt, FVal.le, FVal.eq, FVal.ofInt, fPos, fUnitOpen,
+    fUnitClosed, fGeOne])
+
+theorem shape_oddPositiveInt (v : JVal) :
+    Agrees (Schema.accepts noOracle (entry SadSsd "window_size") v) (DomKind.oddPositiveInt.dom v) := by
+  cases v <;> simp only [SadSsd] <;> schema_simp
+  rename_i i
+  by_cases h1 : 0 < i <;> by_cases h2 : i % 2 = 0 <;> by_cases h3 : (1 ≤ i ∧ i % 2 = 1) <;>
+    simp [h1, h2, h3] <;> omega
+
+theorem shape_filterSize (v : JVal) :
+    Agrees (Schema.accepts noOracle (entry MedianFilter "filter_size") v) (DomKind.oddPositiveInt.dom v) := by
+  cases v <;> simp only [MedianFilter] <;> schema_simp
+  rename_i i
+  by_cases h1 : 1 ≤ i <;> by_cases h2 : i % 2 = 0 <;> by_cases h3 : (1 ≤ i ∧ i % 2 = 1) <;>
+    simp [h1, h2, h3] <;> omega
+
+theorem shape_census35 (v : JVal) :
+    Agrees (Schema.accepts noOracle (entry Census "window_size") v) (DomKind.census35.dom v) := by
+  cases v <;> simp only [Census] <;> schema_simp
+  rename_i i
+  by_cases h1 : i = 3 <;> by_cases h2 : i = 5 <;> simp [h1, h2]
+
+theorem shape_subpix (v : JVal) :
+    Agrees (Schema.accepts noOracle (entry SadSsd "subpix") v) (DomKind.subpix.dom v) := by
+  cases v <;> simp only [SadSsd] <;> schema_simp
+  rename_i i
+  by_cases h1 : 0 < i <;> by_cases h2 : i % 2 = 0 <;> by_cases h3 : i = 1 <;> by_cases h4 : i = 2 <;>
+    by_cases h5 : i = 4 <;> simp [h1, h2, h3, h4, h5] <;> omega
+
+theorem shape_strOrNone (v : JVal) :
+    Agrees (Schema.accepts noOracle (entry SadSsd "band") v) (DomKind.strOrNone.dom v) := by
+  cases v <;> simp only [SadSsd] <;> schema_simp
+
+theorem shape_positiveFloat (v : JVal) :
+    Agrees (Schema.accepts noOracle (entry CrossBasedCostAggregation "cbca_intensity") v)
+      (DomKind.positiveFloat.dom v) := by
+  cases v <;> simp only [CrossBasedCostAggregation] <;> schema_simp
+  rename_i f
+  cases f <;> schema_simp
+  rename_i q
+  by_cases h1 : 0 < q <;> simp [h1]
+
+theorem shape_positiveInt (v : JVal) :
+    Agrees (Schema.accepts noOracle (entry CrossBasedCostAggregation "cbca_distance") v)
+      (DomKind.positiveInt.dom v) := by
+  cases v <;> simp only [CrossBasedCostAggregation] <;> schema_simp
+  rename_i i
+  by_cases h1 : 0 < i <;> simp [h1] <;> omega
+
+theorem shape_anyStr (v : JVal) :
+    Agrees (Schema.accepts noOracle (entry MedianForIntervalsFilter "interval_indicator") v)
+      (DomKind.anyStr.dom v) := by
+  cases v <;> simp only [MedianForIntervalsFilter] <;> schema_simp
+
+theorem shape_anyBool (v : JVal) :
+    Agrees (Schema.accepts noOracle (entry MedianForIntervalsFilter "regularization") v)
+      (DomKind.anyBool.dom v) := by
+  cases v <;> simp only [MedianForIntervalsFilter] <;> schema_simp
+
+theorem shape_ambiguityThreshold (v : JVal) :
+    Agrees (Schema.accepts noOracle (entry MedianForIntervalsFilter "ambiguity_threshold") v)
+      (DomKind.ambiguityThreshold.dom v) := by
+  cases v <;> simp only [MedianForIntervalsFilter] <;> schema_simp
+  rename_i f
+  cases f <;> schema_simp
+  rename_i q
+  by_cases h1 : 0 < q <;> by_cases h2 : q < 1 <;> by_cases h3 : 0 ≤ q <;> by_cases h4 : q ≤ 1 <;>
+    by_cases h5 : q = 0 <;> by_cases h6 : q = 1 <;> simp [h1, h2, h3, h4, h5, h6] <;> grind
+
+theorem shape_unitClosedFloat (v : JVal) :
+    Agrees (Schema.accepts noOracle (entry MedianForIntervalsFilter "quantile_regularization") v)
+      (DomKind.unitClosedFloat.dom v) := by
+  cases v <;> simp only [MedianForIntervalsFilter] <;> schema_simp
+  rename_i f
+  cases f <;> schema_simp
+  rename_i q
+  by_cases h3 : 0 ≤ q <;> by_cases h4 : q ≤ 1 <;> simp [h3, h4]
+
+theorem shape_kernelSize (v : JVal) :
+    Agrees (Schema.accepts noOracle (entry MedianForIntervalsFilter "ambiguity_kernel_size") v)
+      (DomKind.kernelSize.dom v) := by
+  cases v <;> simp only [MedianForIntervalsFilter] <;> schema_simp
+  rename_i i
+  by_cases h1 : 0 < i <;> by_cases h2 : i % 2 = 1 <;> by_cases h3 : i < 0 <;>
+    simp [h1, h2, h3] <;> omega
+
+theorem shape_intGe0 (v : JVal) :
+    Agrees (Schema.accepts noOracle (entry MedianForIntervalsFilter "vertical_depth") v)
+      ((DomKind.intGe 0).dom v) := by
+  cases v <;> simp only [MedianForIntervalsFilter] <;> schema_simp
+  rename_i i
+  by_cases h1 : 0 ≤ i <;> simp [h1] <;> omega
+
+theorem shape_intGe2 (v : JVal) :
+    Agrees (Schema.accepts noOracle (entry FixedZoomPyramid "num_scales") v)
+      ((DomKind.intGe 2).dom v) := by
+  cases v <;> simp only [FixedZoomPyramid] <;> schema_simp
+  rename_i i
+  by_cases h1 : 1 < i <;> by_cases h2 : 2 ≤ i <;> simp [h1, h2] <;> omega
+
+theorem shape_number (v : JVal) :
+    Agrees (Schema.accepts noOracle (entry CrossCheckingAccurate "cross_checking_threshold") v)
+      (DomKind.number.dom v) := by
+  cases v <;> simp only [CrossCheckingAccurate] <;> schema_simp
+
+theorem shape_interpolation (v : JVal) :
+    Agrees (Schema.accepts noOracle (entry CrossCheckingAccurate "interpolated_disparity") v)
+      (DomKind.interpolation.dom v) := by
+  cases v <;> simp only [CrossCheckingAccurate] <;> schema_simp
+  rename_i s
+  by_cases h1 : s = "sgm" <;> by_cases h2 : s = "mc-cnn" <;> by_cases h3 : s = "mc_cnn" <;>
+    simp [h1, h2, h3]
+
+theorem shape_etaFloat (v : JVal) :
+    Agrees (Schema.accepts noOracle (entry Ambiguity "eta_max") v) (DomKind.etaFloat.dom v) := by
+  cases v <;> simp only [Ambiguity] <;> schema_simp
+  rename_i f
+  cases f <;> schema_simp
+  rename_i q
+  by_cases h1 : 0 < q <;> by_cases h2 : q < 1 <;> by_cases h3 : 1 ≤ q <;>
+    simp [h1, h2, h3] <;> grind
+
+/-- `invalid_disparity`: `Or(int, float, lambda x: np.isnan(x))`.
+    Full-strength statement (FALSE of the code, see `nan_in_list_counterexample`):
+      ∀ v, Agrees (accepts (entry WinnerTakesAll "invalid_disparity") v) (DomKind.numberOrNaN.dom v)
+    Proved: the same for every value that is not a list.  A (nested) list holding exactly one
+    number, a NaN, makes `np.isnan(v)` truthy and is accepted although the documentation only
+    allows numbers (known finding `nan_in_list`). -/
+theorem shape_numberOrNaN_partial (v : JVal) (hv : v.isList = false) :
+    Agrees (Schema.accepts noOracle (entry WinnerTakesAll "invalid_disparity") v)
+      (DomKind.numberOrNaN.dom v) := by
+  cases v <;> simp only [WinnerTakesAll] <;> schema_simp
+  all_goals simp [JVal.isList] at hv
+
+/-- the entry as it is written in the tree the finding was made on -/
+def bareIsnanEntry : Schema := .any [.type .int, .type .float, .func (.npIsnan .var)]
+
+theorem nan_in_list_counterexample :
+    Schema.accepts noOracle bareIsnanEntry (.list [.float .nan]) = true ∧
+    Schema.accepts noOracle bareIsnanEntry (.list [.list [.float .nan]]) = true ∧
+    DomKind.numberOrNaN.dom (.list [.float .nan]) = Dom.reject := by decide
+
+/-- with the proposed fix (`np.isscalar(x) and np.isnan(x)`) the list is refused and numbers keep
+    their verdict -/
+theorem nan_in_list_fixed :
+    let fixed : Schema := .any [.type .int, .type .float,
+      .func (.and (.npIsscalar .var) (.npIsnan .var))]
+    Schema.accepts noOracle fixed (.list [.float .nan]) = false ∧
+    Schema.accepts noOracle fixed (.float .nan) = true ∧
+    Schema.accepts noOracle fixed (.int (-9999)) = true ∧
+    Schema.accepts noOracle fixed (.str "x") = false := by decide
+
+/-- `step`: the guard `cfg["step"] != 1` and the schema entry together against "only 1" -/
+theorem shape_stepOne (v : JVal) :
+    Agrees (pyEq v (.int 1) && Schema.accepts noOracle (entry SadSsd "step") v) (DomKind.stepOne.dom v) := by
+  cases v <;> simp only [SadSsd] <;> schema_simp
+  rename_i i
+  by_cases h1 : i = 1 <;> simp [h1]
+
+/-- the distinct (schema, documented domain) pairs of the source, one representative each -/
+def shapes : List (Schema × DomKind) := [
+  (entry SadSsd "window_size", .oddPositiveInt),
+  (entry MedianFilter "filter_size", .oddPositiveInt),
+  (entry Census "window_size", .census35),
+  (entry SadSsd "subpix", .subpix),
+  (entry SadSsd "band", .strOrNone),
+  (entry CrossBasedCostAggregation "cbca_intensity", .positiveFloat),
+  (entry CrossBasedCostAggregation "cbca_distance", .positiveInt),
+  (entry MedianForIntervalsFilter "interval_indicator", .anyStr),
+  (entry MedianForIntervalsFilter "regularization", .anyBool),
+  (entry MedianForIntervalsFilter "ambiguity_threshold", .ambiguityThreshold),
+  (entry MedianForIntervalsFilter "quantile_regularization", .unitClosedFloat),
+  (entry MedianForIntervalsFilter "ambiguity_kernel_size", .kernelSize),
+  (entry MedianForIntervalsFilter "vertical_depth", .intGe 0),
+  (entry FixedZoomPyramid "num_scales", .intGe 2),
+  (entry CrossCheckingAccurate "cross_checking_threshold", .number),
+  (entry CrossCheckingAccurate "interpolated_disparity", .interpolation),
+  (entry Ambiguity "eta_max", .etaFloat),
+  (entry WinnerTakesAll "invalid_disparity", .numberOrNaN)]
+
+/-- the one place where the code is known to accept more than documented -/
+def nanListException (d : DomKind) (v : JVal) : Bool := d == .numberOrNaN && v.isList
+
+theorem shapes_agree (sd : Schema × DomKind) (h : sd ∈ shapes) (v : JVal)
+    (hex : nanListException sd.2 v = false) :
+    Agrees (Schema.accepts noOracle sd.1 v) (sd.2.dom v) := by
+  simp only [shapes, List.mem_cons, List.mem_nil_iff, or_false] at h
+  rcases h with rfl | rfl | rfl | rfl | rfl | rfl | rfl | rfl | rfl | rfl | rfl | rfl | rfl | rfl | rfl | rfl | rfl | rfl
+  · exact shape_oddPositiveInt v
+  · exact shape_filterSize v
+  · exact shape_census35 v
+  · exact shape_subpix v
+  · exact shape_strOrNone v
+  · exact shape_positiveFloat v
+  · exact shape_positiveInt v
+  · exact shape_anyStr v
+  · exact shape_anyBool v
+  · exact shape_ambiguityThreshold v
+  · exact shape_unitClosedFloat v
+  · exact shape_kernelSize v
+  · exact shape_intGe0 v
+  · exact shape_intGe2 v
+  · exact shape_number v
+  · exact shape_interpolation v
+  · exact shape_etaFloat v
+  · exact shape_numberOrNaN_partial v (by simpa [nanListException] using hex)
+
+/-- every (class, registered method, documented parameter) of the source, with the schema entry
+    the source gives it and the domain the documentation gives it (`step` is treated with its
+    guard in `shape_stepOne` / `step_rows`) -/
+def rows : List (Schema × DomKind) :=
+  allClasses.flatMap fun kc => kc.2.names.flatMap fun m =>
+    match docClass? kc.1 m with
+    | some d => (d.params.filter (fun p => p.name != "step")).map (fun p => (entry kc.2 p.name, p.dom))
+    | none => []
+
+theorem rows_are_shapes : rows.all (fun r => decide (r ∈ shapes)) = true := by decide
+
+/-- the `step` entries of all classes are the one of `shape_stepOne` -/
+theorem step_rows :
+    allClasses.all (fun kc => !(kc.2.schema.any (fun e => e.1 == "step")) ||
+      decide (entry kc.2 "step" = entry SadSsd "step")) = true := by decide
+
+/-- **parameters policed**: for every parameter of every built-in method and EVERY value, the
+    schema of the source accepts the value when the documentation says it is legal and refuses it
+    when the documentation says it is not (wrong type included) — except the finding above. -/
+theorem parameters_policed (r : Schema × DomKind) (hr : r ∈ rows) (v : JVal)
+    (hex : nanListException r.2 v = false) :
+    Agrees (Schema.accepts noOracle r.1 v) (r.2.dom v) := by
+  have h := rows_are_shapes
+  rw [List.all_eq_true] at h
+  exact shapes_agree r (by simpa using h r hr) v hex
+
+/-- the table is not empty -/
+theorem rows_count : rows.length = 47 := by decide
+
+/-! ### 6. Non-vacuity and counterexamples (findings) -/
+
+deriving instance DecidableEq for Except
+
+def monoL : ImgInfo := { bands := [none], dispSource := .list [.int (-2), .int 2] }
+def monoR : ImgInfo := { bands := [none], dispSource := .null }
+
+/-- a concrete completion: user keys first (value and position kept), then the defaults -/
+example :
+    classCheck noOracle SadSsd monoL monoR
+      [("window_size", .int 3), ("matching_cost_method", .str "sad")] =
+    .ok [("window_size", .int 3), ("matching_cost_method", .str "sad"), ("subpix", .int 1),
+         ("band", .null), ("step", .int 1)] := by decide
+
+example :
+    classCheck noOracle WinnerTakesAll monoL monoR
+      [("disparity_method", .str "wta"), ("invalid_disparity", .str "NaN")] =
+    .ok [("disparity_method", .str "wta"), ("invalid_disparity", .float .nan)] := by decide
+
+example : classCheck noOracle SadSsd monoL monoR
+    [("matching_cost_method", .str "sad"), ("window_size", .int 4)] = .error .checker := by decide
+
+example : classCheck noOracle SadSsd monoL monoR
+    [("matching_cost_method", .str "sad"), ("step", .int 2)] = .error .value := by decide
+
+def isOk {α} : Except Err α → Bool
+  | .ok _ => true
+  | .error _ => false
+
+def pipelineOf : Except Err (Dict × CState) → Option Dict
+  | .ok (cfg, _) => some cfg
+  | .error _ => none
+
+/-- a whole pipeline on a fresh machine: every step completed, in the user's order -/
+example :
+    pipelineOf (checkPipelineSection noOracle {} registry
+      [("pipeline", .obj [
+        ("matching_cost", .obj [("matching_cost_method", .str "zncc")]),
+        ("disparity", .obj [("disparity_method", .str "wta"), ("invalid_disparity", .str "NaN")]),
+        ("filter", .obj [("filter_method", .str "median")])])] monoL monoR {}) =
+    some [("pipeline", .obj [
+      ("matching_cost", .obj [("matching_cost_method", .str "zncc"), ("window_size", .int 5),
+        ("subpix", .int 1), ("band", .null), ("step", .int 1)]),
+      ("disparity", .obj [("disparity_method", .str "wta"), ("invalid_disparity", .float .nan)]),
+      ("filter", .obj [("filter_method", .str "median"), ("filter_size", .int 3)])])] := by decide
+
+/-- Finding `band_multichar`.  Full-strength statement (FALSE of the code): a `band` that names a
+    band of both images is accepted.  `check_band_pipeline` iterates over the *characters* of the
+    band name, so "red" is looked up as "r", "e", "d" and refused although both images have a band
+    "red" and the documentation's verdict is `accept`. -/
+theorem band_multichar_counterexample :
+    let l : ImgInfo := { bands := [some "red", some "nir"], dispSource := .list [.int (-1), .int 1] }
+    let r : ImgInfo := { bands := [some "red", some "nir"], dispSource := .null }
+    let p : Dict := [("matching_cost", .obj [("matching_cost_method", .str "zncc"), ("band", .str "red")])]
+    pipelineVerdict l r p = Dom.accept ∧
+    isOk (checkPipelineSection noOracle {} registry [("pipeline", .obj p)] l r {}) = false ∧
+    -- the same pipeline with the one-letter name "r" on images with bands r, g is accepted
+    isOk (checkPipelineSection noOracle {} registry
+      [("pipeline", .obj [("matching_cost", .obj [("matching_cost_method", .str "zncc"), ("band", .str "r")])])]
+      { bands := [some "r", some "g"], dispSource := .list [.int (-1), .int 1] }
+      { bands := [some "r", some "g"], dispSource := .null } {}) = true ∧
+    -- with the proposed fix (the string is one band name) the pipeline is accepted
+    isOk (checkPipelineSection noOracle { bandWhole := true } registry [("pipeline", .obj p)] l r {}) = true := by
+  decide
+
+def pipeA : Dict := [("pipeline", .obj [
+  ("matching_cost", .obj [("matching_cost_method", .str "zncc")]),
+  ("aggregation", .obj [("aggregation_method", .str "cbca")]),
+  ("disparity", .obj [("disparity_method", .str "wta")])])]
+
+def pipeB : Dict := [("pipeline", .obj [
+  ("matching_cost", .obj [("matching_cost_method", .str "sad")]),
+  ("disparity", .obj [("disparity_method", .str "wta")])])]
+
+/-- check `pipeA`, then `pipeB` on the same machine, then the configuration returned for `pipeB`
+    on a fresh machine -/
+def reusedMachineWitness (fl : MachineFlags) : Option (List String) × Bool :=
+  match checkPipelineSection noOracle fl registry pipeA monoL monoR {} with
+  | .ok (_, m1) =>
+    match checkPipelineSection noOracle fl registry pipeB monoL monoR m1 with
+    | .ok (out, _) =>
+      (match Dict.lookup out "pipeline" with
+       | some (.obj p) => some (Dict.keys p)
+       | _ => none,
+       isOk (checkPipelineSection noOracle fl registry out monoL monoR {}))
+    | .error _ => (none, true)
+  | .error _ => (none, true)
+
+/-- Finding `reused_machine_stale_steps`.  Full-strength statement (FALSE of the code on a reused
+    machine): checking the returned configuration again returns it unchanged.  The machine keeps
+    `pipeline_cfg` from one `check_conf` to the next, so the steps of an earlier configuration are
+    merged into the configuration returned for a later one — here `aggregation` lands after
+    `disparity` and the returned configuration is itself refused. -/
+theorem reused_machine_counterexample :
+    reusedMachineWitness {} = (some ["matching_cost", "disparity", "aggregation"], false) ∧
+    -- with the proposed fix (`check_conf` empties `pipeline_cfg` first) only the steps of the
+    -- second configuration come back, and checking them again succeeds
+    reusedMachineWitness { resetPipelineCfg := true } = (some ["matching_cost", "disparity"], true) := by
+  decide
+
+/-- on a fresh machine the same second configuration is returned with its own steps only -/
+example :
+    (pipelineOf (checkPipelineSection noOracle {} registry pipeB monoL monoR {})).map
+      (fun c => match Dict.lookup c "pipeline" with | some (.obj p) => Dict.keys p | _ => []) =
+    some ["matching_cost", "disparity"] := by decide
+
+/-! ### 7. From schema entries to whole steps -/
+
+theorem acceptsEntries_iff (o : Oracle) (entries : List (String × Bool × Schema)) (kvs : Dict) :
+    Schema.acceptsEntries o entries kvs = true ↔
+      ∀ e ∈ entries, (match Dict.lookup kvs e.1 with
+                      | some v => Schema.accepts o e.2.2 v = true
+                      | none => e.2.1 = true) := by
+  induction entries with
+  | nil => simp [Schema.acceptsEntries]
+  | cons e rest ih =>
+    obtain ⟨k, opt, s⟩ := e
+    simp only [Schema.acceptsEntries, Bool.and_eq_true, ih, List.mem_cons, forall_eq_or_imp]
+    constructor
+    · intro ⟨h1, h2⟩
+      refine ⟨?_, h2⟩
+      cases hl : Dict.lookup kvs k <;> simp_all
+    · intro ⟨h1, h2⟩
+      refine ⟨?_, h2⟩
+      cases hl : Dict.lookup kvs k <;> simp_all
+
+/-- `Checker(schema).validate(cfg)` for a dictionary schema: every named key validates (an absent
+    one must be optional) and the dictionary has no other key -/
+theorem dict_accepts_iff (o : Oracle) (entries : List (String × Bool × Schema)) (kvs : Dict) :
+    Schema.accepts o (.dict entries) (.obj kvs) = true ↔
+      (∀ e ∈ entries, (match Dict.lookup kvs e.1 with
+                       | some v => Schema.accepts o e.2.2 v = true
+                       | none => e.2.1 = true)) ∧
+      (∀ kv ∈ kvs, ∃ e ∈ entries, e.1 = kv.1) := by
+  have h : Schema.accepts o (.dict entries) (.obj kvs) =
+      (Schema.acceptsEntries o entries kvs && kvs.all (fun kv => entries.any (fun e => e.1 == kv.1))) := by
+    rw [Schema.accepts]
+  rw [h]
+  simp only [Bool.and_eq_true, acceptsEntries_iff, List.all_eq_true, List.any_eq_true, beq_iff_eq]
+
+
+theorem lookup_of_mem_nodup (d : Dict) (k : String) (v : JVal) (hnd : Dict.nodup d = true) (h : (k, v) ∈ d) :
+    Dict.lookup d k = some v := by
+  induction d with
+  | nil => simp at h
+  | cons kv rest ih =>
+    obtain ⟨k', v'⟩ := kv
+    simp only [Dict.nodup, Bool.and_eq_true, Bool.not_eq_true'] at hnd
+    simp only [List.mem_cons, Prod.mk.injEq] at h
+    rcases h with ⟨rfl, rfl⟩ | h
+    · simp [Dict.lookup]
+    · have hne : k' ≠ k := by
+        intro e; subst e
+        have : Dict.hasKey rest k' = true := by
+          rw [hasKey_iff_mem_keys]; exact List.mem_map_of_mem (f := (·.1)) h
+        simp [this] at hnd
+      simp [Dict.lookup, hne, ih hnd.2 h]
+
+theorem mem_of_lookup (d : Dict) (k : String) (v : JVal) (h : Dict.lookup d k = some v) : (k, v) ∈ d := by
+  induction d with
+  | nil => simp [Dict.lookup] at h
+  | cons kv rest ih =>
+    obtain ⟨k', v'⟩ := kv
+    by_cases e : k' = k
+    · subst e; simp [Dict.lookup] at h; subst h; simp
+    · simp [Dict.lookup, e] at h; exact List.mem_cons_of_mem _ (ih h)
+
+theorem pyEq_str_NaN (v : JVal) (h : rewriteLeaf v = v) : pyEq v (.str "NaN") = false := by
+  have hne : v ≠ .str "NaN" := by
+    intro e; subst e; simp [rewriteLeaf] at h
+  cases v <;> simp [pyEq, JVal.toNum?]
+  rename_i s
+  intro e; exact hne (by rw [e])
+
+theorem Dom.and_eq_reject (a b : Dom) : Dom.and a b = .reject ↔ a = .reject ∨ b = .reject := by
+  cases a <;> cases b <;> simp [Dom.and]
+
+theorem Dom.and_eq_accept (a b : Dom) : Dom.and a b = .accept ↔ a = .accept ∧ b = .accept := by
+  cases a <;> cases b <;> simp [Dom.and]
+
+/-- a step is documented as refused exactly when some key is neither the method key nor a
+    parameter, or some parameter value is outside its documented domain -/
+theorem paramsVerdict_reject (d : DocClass) (cfg : Dict) (h : paramsVerdict d cfg = .reject) :
+    ∃ k v, (k, v) ∈ cfg ∧ k ≠ d.methodKey ∧
+      (d.param? k = none ∨ ∃ p, d.param? k = some p ∧ p.dom.dom v = .reject) := by
+  induction cfg with
+  | nil => simp [paramsVerdict] at h
+  | cons kv rest ih =>
+    obtain ⟨k, v⟩ := kv
+    simp only [paramsVerdict, Dom.and_eq_reject] at h
+    rcases h with h | h
+    · by_cases hk : k = d.methodKey
+      · simp [hk] at h
+      · simp only [hk, if_false] at h
+        refine ⟨k, v, by simp, hk, ?_⟩
+        cases hp : d.param? k with
+        | none => exact Or.inl rfl
+        | some p => simp [hp] at h; exact Or.inr ⟨p, rfl, h⟩
+    · obtain ⟨k', v', hm, hr⟩ := ih h
+      exact ⟨k', v', List.mem_cons_of_mem _ hm, hr⟩
+
+/-- a guard is respected: when the user supplies the guarded key (and it is not a NaN-rewriting
+    key), a successful run means the user's value passed the guard -/
+theorem guard_respected (l r : ImgInfo) (acts : List Action) :
+    ∀ (cfg out : Dict) (k : String) (g u : JVal) (e : Err),
+      runActions l r acts cfg = .ok out → Action.guardNe k g e ∈ acts → k ∉ nanKeys acts →
+      Dict.lookup cfg k = some u → pyEq u g = true := by
+  induction acts with
+  | nil => intro cfg out k g u e _ hm; simp at hm
+  | cons a rest ih =>
+    intro cfg out k g u e h hm hn hl
+    obtain ⟨cfg', hA, hR⟩ := runActions_ok_cons h
+    -- the lookup of k survives the head action
+    have hl' : a ≠ Action.guardNe k g e → Dict.lookup cfg' k = some u ∧ Action.guardNe k g e ∈ rest ∧ k ∉ nanKeys rest := by
+      intro hne
+      have hmr : Action.guardNe k g e ∈ rest := by
+        rcases List.mem_cons.1 hm with h0 | h0
+        · exact absurd h0.symm hne
+        · exact h0
+      cases a with
+      | default k0 v0 =>
+        simp only [runAction] at hA
+        refine ⟨?_, hmr, by simpa [nanKeys] using hn⟩
+        by_cases hk : Dict.hasKey cfg k0 = true
+        · simp [hk] at hA; subst hA; exact hl
+        · simp [hk] at hA; subst hA
+          rw [lookup_setKey]
+          have : k0 ≠ k := by intro e0; subst e0; simp [Dict.hasKey, hl] at hk
+          simp [this, hl]
+      | defaultElifNaN k0 v0 =>
+        have hk0 : k0 ≠ k := by intro e0; subst e0; simp [nanKeys] at hn
+        have hnr : k ∉ nanKeys rest := by
+          simp [nanKeys] at hn; exact hn.2
+        refine ⟨?_, hmr, hnr⟩
+        simp only [runAction] at hA
+        cases hl0 : Dict.lookup cfg k0 with
+        | none => simp [hl0] at hA; subst hA; rw [lookup_setKey]; simp [hk0, hl]
+        | some cur =>
+          simp [hl0] at hA
+          by_cases hp : pyEq cur (.str "NaN") = true
+          · simp [hp] at hA; subst hA; rw [lookup_setKey]; simp [hk0, hl]
+          · simp [hp] at hA; subst hA; exact hl
+      | guardNe k0 v0 e0 =>
+        refine ⟨?_, hmr, by simpa [nanKeys] using hn⟩
+        simp only [runAction] at hA
+        cases hl0 : Dict.lookup cfg k0 with
+        | none => simp [hl0] at hA; subst hA; exact hl
+        | some cur =>
+          simp [hl0] at hA
+          by_cases hp : pyEq cur v0 = true
+          · simp [hp] at hA; subst hA; exact hl
+          · simp [hp] at hA
+      | refuseGrids =>
+        refine ⟨?_, hmr, by simpa [nanKeys] using hn⟩
+        simp only [runAction] at hA
+        by_cases hg : (l.dispSource.isStr || r.dispSource.isStr) = true
+        · simp [hg] at hA
+        · simp [hg] at hA; subst hA; exact hl
+    by_cases hhead : a = Action.guardNe k g e
+    · subst hhead
+      simp only [runAction, hl] at hA
+      by_cases hp : pyEq u g = true
+      · exact hp
+      · simp [hp] at hA
+    · obtain ⟨h1, h2, h3⟩ := hl' hhead
+      exact ih cfg' out k g u e hR h2 h3 h1
+
+
+def isStepGuard : Action → Bool
+  | .guardNe k v _ => k == "step" && decide (v = .int 1)
+  | _ => false
+
+/-- further facts about a class of the source and its documented class, read off the tables -/
+def stepFacts (c : ClassDesc) (d : DocClass) : Bool :=
+  d.params.all (fun p => p.name != "step" ||
+    (decide (p.dom = .stepOne) && decide (entry c "step" = entry SadSsd "step") &&
+     c.actions.any isStepGuard && !(nanKeys c.actions).contains "step"))
+
+theorem generated_step_facts :
+    allClasses.all (fun kc => kc.2.names.all (fun m =>
+      match docClass? kc.1 m with
+      | some d => stepFacts kc.2 d
+      | none => false)) = true := by decide
+
+theorem facts_of_mem {kind : String} {c : ClassDesc} {m : String} {d : DocClass}
+    (hkc : (kind, c) ∈ allClasses) (hm : m ∈ c.names) (hd : docClass? kind m = some d) :
+    defaultsAgree c d = true ∧ stepFacts c d = true := by
+  have h1 := generated_defaults_documented
+  have h2 := generated_step_facts
+  rw [List.all_eq_true] at h1 h2
+  have a1 := h1 (kind, c) hkc
+  have a2 := h2 (kind, c) hkc
+  rw [List.all_eq_true] at a1 a2
+  have b1 := a1 m hm
+  have b2 := a2 m hm
+  simp only [hd] at b1 b2
+  exact ⟨b1, b2⟩
+
+theorem row_of_mem {kind : String} {c : ClassDesc} {m : String} {d : DocClass} {p : DocParam}
+    (hkc : (kind, c) ∈ allClasses) (hm : m ∈ c.names) (hd : docClass? kind m = some d)
+    (hp : p ∈ d.params) (hs : p.name ≠ "step") : (entry c p.name, p.dom) ∈ rows := by
+  unfold rows
+  rw [List.mem_flatMap]
+  refine ⟨(kind, c), hkc, ?_⟩
+  rw [List.mem_flatMap]
+  refine ⟨m, hm, ?_⟩
+  simp only [hd]
+  rw [List.mem_map]
+  refine ⟨p, ?_, rfl⟩
+  rw [List.mem_filter]
+  exact ⟨hp, by simpa using hs⟩
+
+theorem param_mem {d : DocClass} {k : String} {p : DocParam} (h : d.param? k = some p) :
+    p ∈ d.params ∧ p.name = k := by
+  unfold DocClass.param? at h
+  have := List.find?_some h
+  exact ⟨List.mem_of_find?_eq_some h, by simpa using this⟩
+
+theorem entry_mem {c : ClassDesc} {k : String} (h : ∃ e ∈ c.schema, e.1 = k) :
+    ∃ e ∈ c.schema, e.1 = k ∧ e.2.2 = entry c k := by
+  unfold entry
+  cases hf : c.schema.find? (fun e => e.1 == k) with
+  | none =>
+    obtain ⟨e, he, hk⟩ := h
+    rw [List.find?_eq_none] at hf
+    exact absurd (by simpa using hk) (by simpa using hf e he)
+  | some e =>
+    exact ⟨e, List.mem_of_find?_eq_some hf, by simpa using List.find?_some hf, rfl⟩
+
+/-- **a step the documentation refuses is refused**: for every built-in class of the source and
+    its documented class, a step configuration (as `update_conf` delivers it: the three magic
+    strings already rewritten; no list-valued parameter, which sets the `nan_in_list` finding aside)
+    whose documented verdict is `reject` — an unknown key, or a parameter value outside its
+    documented domain, wrong type included, or `step ≠ 1` — never passes the class's `check_conf`. -/
+theorem step_refused_of_documented_reject {kind : String} {c : ClassDesc} {m : String} {d : DocClass}
+    (hkc : (kind, c) ∈ allClasses) (hm : m ∈ c.names) (hd : docClass? kind m = some d)
+    (l r : ImgInfo) (cfg : Dict) (hnd : Dict.nodup cfg = true)
+    (hrw : ∀ kv ∈ cfg, rewriteLeaf kv.2 = kv.2) (hnl : ∀ kv ∈ cfg, kv.2.isList = false)
+    (hv : paramsVerdict d cfg = .reject) (out : Dict) :
+    classCheck noOracle c l r cfg ≠ .ok out := by
+  intro hok
+  obtain ⟨hrun, hacc⟩ := classCheck_ok hok
+  obtain ⟨hagree, hstep⟩ := facts_of_mem hkc hm hd
+  have hwf : wfActions c.actions = true := generated_wf_of_mem hkc
+  obtain ⟨k, v, hmem, hkm, hcase⟩ := paramsVerdict_reject d cfg hv
+  have hl : Dict.lookup cfg k = some v := lookup_of_mem_nodup cfg k v hnd hmem
+  have hnan : pyEq v (.str "NaN") = false := pyEq_str_NaN v (hrw (k, v) hmem)
+  have hout : Dict.lookup out k = some v := by
+    have := classCheck_user_values_kept hwf hok k v hl
+    simpa [nanFix, hnan] using this
+  rw [dict_accepts_iff] at hacc
+  obtain ⟨hentries, hkeys⟩ := hacc
+  simp only [defaultsAgree, Bool.and_eq_true, List.all_eq_true, List.any_eq_true, Bool.or_eq_true,
+    beq_iff_eq] at hagree
+  obtain ⟨⟨⟨⟨_, _⟩, hschemaKeys⟩, hparamsInSchema⟩, _⟩ := hagree
+  rcases hcase with hnone | ⟨p, hp, hrej⟩
+  · -- not a parameter: the key is not in the schema, but it is in the result
+    obtain ⟨e, he, hek⟩ := hkeys (k, v) (mem_of_lookup out k v hout)
+    have hek' : e.1 = k := hek
+    rcases hschemaKeys e he with h1 | ⟨p, hpm, hpn⟩
+    · exact hkm (by rw [← hek', h1])
+    · unfold DocClass.param? at hnone
+      rw [List.find?_eq_none] at hnone
+      have := hnone p hpm
+      simp at this
+      exact this (by rw [hpn, hek'])
+  · obtain ⟨hpm, hpn⟩ := param_mem hp
+    obtain ⟨e, he, hek, hee⟩ := entry_mem (c := c) (k := k) (by
+      obtain ⟨e, he, hen⟩ := hparamsInSchema p hpm
+      exact ⟨e, he, by rw [hen, hpn]⟩)
+    have hacc_e := hentries e he
+    rw [hek, hout] at hacc_e
+    simp only [hee] at hacc_e
+    by_cases hs : p.name = "step"
+    · -- step: guard and schema together
+      simp only [stepFacts, List.all_eq_true] at hstep
+      have hf := hstep p hpm
+      simp only [hs, bne_self_eq_false, Bool.false_or, Bool.and_eq_true, decide_eq_true_eq,
+        List.any_eq_true, Bool.not_eq_true', List.contains_eq_mem, decide_eq_false_iff_not] at hf
+      obtain ⟨⟨⟨hdom, hent⟩, ⟨a, ham, hag⟩⟩, hnn⟩ := hf
+      have hk : k = "step" := by rw [← hpn, hs]
+      subst hk
+      have hshape := shape_stepOne v
+      rw [hdom] at hrej
+      rw [hrej] at hshape
+      simp only [Agrees, Bool.and_eq_false_iff] at hshape
+      rcases hshape with h1 | h1
+      · -- the guard refuses
+        cases a with
+        | guardNe k0 g e0 =>
+          simp only [isStepGuard, Bool.and_eq_true, beq_iff_eq, decide_eq_true_eq] at hag
+          obtain ⟨rfl, rfl⟩ := hag
+          have := guard_respected l r c.actions cfg out "step" (.int 1) v e0 hrun ham hnn hl
+          rw [this] at h1; exact Bool.noConfusion h1
+        | default _ _ => simp [isStepGuard] at hag
+        | defaultElifNaN _ _ => simp [isStepGuard] at hag
+        | refuseGrids => simp [isStepGuard] at hag
+      · rw [hent] at hacc_e; rw [hacc_e] at h1; exact Bool.noConfusion h1
+    · have hrow := row_of_mem hkc hm hd hpm hs
+      have hpol := parameters_policed _ hrow v (by
+        simp [nanListException, hnl (k, v) hmem])
+      simp only at hpol
+      rw [hrej] at hpol
+      simp only [Agrees] at hpol
+      rw [hpn] at hpol
+      rw [hacc_e] at hpol; exact Bool.noConfusion hpol
+
+
+/-! the accept direction -/
+
+/-- the guards of a sequence are compatible with a configuration: the user's value passes, the
+    guarded key is not NaN-rewritten, the default the sequence would insert passes; and no disparity
+    grid is given when the sequence refuses grids -/
+def GuardsCompatible (l r : ImgInfo) (acts : List Action) (cfg : Dict) : Prop :=
+  (∀ k g e, Action.guardNe k g e ∈ acts →
+    (∀ u, Dict.lookup cfg k = some u → pyEq u g = true) ∧ k ∉ nanKeys acts ∧
+    (∀ dflt, defaultOf acts k = some dflt → pyEq dflt g = true)) ∧
+  (Action.refuseGrids ∈ acts → (l.dispSource.isStr || r.dispSource.isStr) = false)
+
+theorem defaultOf_cons_of_ne (a : Action) (rest : List Action) (k : String)
+    (h : ∀ k0 v0, a = .default k0 v0 ∨ a = .defaultElifNaN k0 v0 → k0 ≠ k) :
+    defaultOf (a :: rest) k = defaultOf rest k := by
+  cases a with
+  | default k0 v0 => simp [defaultOf, h k0 v0 (Or.inl rfl)]
+  | defaultElifNaN k0 v0 => simp [defaultOf, h k0 v0 (Or.inr rfl)]
+  | guardNe _ _ _ => simp [defaultOf]
+  | refuseGrids => simp [defaultOf]
+
+/-- a well-formed sequence whose guards are compatible with the configuration runs to the end -/
+theorem runActions_succeeds (l r : ImgInfo) (acts : List Action) :
+    ∀ cfg : Dict, wfActions acts = true → GuardsCompatible l r acts cfg →
+      ∃ out, runActions l r acts cfg = .ok out := by
+  induction acts with
+  | nil => intro cfg _ _; exact ⟨cfg, rfl⟩
+  | cons a rest ih =>
+    intro cfg hwf hG
+    obtain ⟨hguards, hrefuse⟩ := hG
+    -- the head action succeeds
+    have hhead : ∃ cfg', runAction l r cfg a = .ok cfg' := by
+      cases a with
+      | default k0 v0 => exact ⟨_, rfl⟩
+      | defaultElifNaN k0 v0 =>
+        simp only [runAction]
+        cases Dict.lookup cfg k0 <;> exact ⟨_, rfl⟩
+      | guardNe k0 g e0 =>
+        simp only [runAction]
+        cases hl : Dict.lookup cfg k0 with
+        | none => exact ⟨_, rfl⟩
+        | some cur =>
+          have := (hguards k0 g e0 (by simp)).1 cur hl
+          simp [this]
+      | refuseGrids =>
+        simp only [runAction]
+        have := hrefuse (by simp)
+        simp [this]
+    obtain ⟨cfg', hA⟩ := hhead
+    have hwfr : wfActions rest = true := by
+      cases a <;> simp only [wfActions, Bool.and_eq_true] at hwf
+      · exact hwf.2
+      · exact hwf.2
+      · exact hwf.2
+      · exact hwf
+    -- the invariant holds for the rest
+    have hG' : GuardsCompatible l r rest cfg' := by
+      refine ⟨?_, fun hm => hrefuse (List.mem_cons_of_mem _ hm)⟩
+      intro k g e hm
+      obtain ⟨hu, hn, hd⟩ := hguards k g e (List.mem_cons_of_mem _ hm)
+      have hnr : k ∉ nanKeys rest := by
+        intro hx; apply hn
+        cases a <;> simp [nanKeys, hx]
+      refine ⟨?_, hnr, ?_⟩
+      · intro u hlu
+        cases a with
+        | default k0 v0 =>
+          simp only [runAction] at hA
+          by_cases hk : Dict.hasKey cfg k0 = true
+          · simp [hk] at hA; subst hA; exact hu u hlu
+          · simp [hk] at hA; subst hA
+            rw [lookup_setKey] at hlu
+            by_cases e0 : k0 = k
+            · subst e0
+              simp at hlu; subst hlu
+              exact hd v0 (by simp [defaultOf])
+            · simp [e0] at hlu; exact hu u hlu
+        | defaultElifNaN k0 v0 =>
+          have hk0 : k0 ≠ k := by intro e0; subst e0; simp [nanKeys] at hn
+          simp only [runAction] at hA
+          cases hl0 : Dict.lookup cfg k0 with
+          | none =>
+            simp [hl0] at hA; subst hA
+            rw [lookup_setKey] at hlu; simp [hk0] at hlu; exact hu u hlu
+          | some cur =>
+            simp [hl0] at hA
+            by_cases hp : pyEq cur (.str "NaN") = true
+            · simp [hp] at hA; subst hA
+              rw [lookup_setKey] at hlu; simp [hk0] at hlu; exact hu u hlu
+            · simp [hp] at hA; subst hA; exact hu u hlu
+        | guardNe k0 g0 e0 =>
+          simp only [runAction] at hA
+          cases hl0 : Dict.lookup cfg k0 with
+          | none => simp [hl0] at hA; subst hA; exact hu u hlu
+          | some cur =>
+            simp [hl0] at hA
+            by_cases hp : pyEq cur g0 = true
+            · simp [hp] at hA; subst hA; exact hu u hlu
+            · simp [hp] at hA
+        | refuseGrids =>
+          simp only [runAction] at hA
+          by_cases hg : (l.dispSource.isStr || r.dispSource.isStr) = true
+          · simp [hg] at hA
+          · simp [hg] at hA; subst hA; exact hu u hlu
+      · intro dflt hdr
+        -- a default of k in the rest is the default of k in the whole list (one default per key)
+        apply hd dflt
+        cases a with
+        | default k0 v0 =>
+          simp only [wfActions, Bool.and_eq_true, Bool.not_eq_true', List.contains_eq_mem,
+            decide_eq_false_iff_not] at hwf
+          have hnd : k0 ∉ defaultKeys rest := by simpa using hwf.1
+          have : k0 ≠ k := by
+            intro e0; subst e0
+            rw [defaultOf_none_of_not_mem rest k0 hnd] at hdr; cases hdr
+          simp [defaultOf, this, hdr]
+        | defaultElifNaN k0 v0 =>
+          have hk0 : k0 ≠ k := by intro e0; subst e0; simp [nanKeys] at hn
+          simp [defaultOf, hk0, hdr]
+        | guardNe _ _ _ => simp [defaultOf, hdr]
+        | refuseGrids => simp [defaultOf, hdr]
+    obtain ⟨out, hR⟩ := ih cfg' hwfr hG'
+    exact ⟨out, by simp [runActions, hA, hR]⟩
+
+
+/-- more table facts: the only guards are `step != 1`; one schema entry per key; the inserted
+    defaults validate; a key without default is optional or the method key; the method entry accepts
+    the registered names -/
+def acceptFacts (c : ClassDesc) (d : DocClass) : Bool :=
+  c.actions.all (fun a => match a with
+    | .guardNe k v _ => k == "step" && decide (v = .int 1)
+    | _ => true) &&
+  (c.schema.map (·.1)).Nodup &&
+  c.schema.all (fun e =>
+    match defaultOf c.actions e.1 with
+    | some dflt => Schema.accepts noOracle e.2.2 dflt
+    | none => e.2.1 || e.1 == d.methodKey) &&
+  c.names.all (fun m => c.schema.all (fun e => e.1 != d.methodKey || Schema.accepts noOracle e.2.2 (.str m))) &&
+  (match defaultOf c.actions "step" with | some dflt => pyEq dflt (.int 1) | none => true) &&
+  d.methodKey != "step" && !(nanKeys c.actions).contains "step"
+
+theorem generated_accept_facts :
+    allClasses.all (fun kc => kc.2.names.all (fun m =>
+      match docClass? kc.1 m with
+      | some d => acceptFacts kc.2 d
+      | none => false)) = true := by decide
+
+theorem accept_facts_of_mem {kind : String} {c : ClassDesc} {m : String} {d : DocClass}
+    (hkc : (kind, c) ∈ allClasses) (hm : m ∈ c.names) (hd : docClass? kind m = some d) :
+    acceptFacts c d = true := by
+  have h1 := generated_accept_facts
+  rw [List.all_eq_true] at h1
+  have a1 := h1 (kind, c) hkc
+  rw [List.all_eq_true] at a1
+  have b1 := a1 m hm
+  simpa only [hd] using b1
+
+theorem paramsVerdict_accept (d : DocClass) (cfg : Dict) (h : paramsVerdict d cfg = .accept) :
+    ∀ k v, (k, v) ∈ cfg → k = d.methodKey ∨ ∃ p, d.param? k = some p ∧ p.dom.dom v = .accept := by
+  induction cfg with
+  | nil => intro k v hm; simp at hm
+  | cons kv rest ih =>
+    obtain ⟨k0, v0⟩ := kv
+    simp only [paramsVerdict, Dom.and_eq_accept] at h
+    intro k v hm
+    rcases List.mem_cons.1 hm with e | hm'
+    · cases e
+      by_cases hk : k0 = d.methodKey
+      · exact Or.inl hk
+      · right
+        have h1 := h.1
+        simp only [hk, if_false] at h1
+        cases hp : d.param? k0 with
+        | none => simp [hp] at h1
+        | some p => simp [hp] at h1; exact ⟨p, rfl, h1⟩
+    · exact ih h.2 k v hm'
+
+theorem eq_of_nodup_map {α β : Type} (f : α → β) (l : List α) (h : (l.map f).Nodup) {a b : α}
+    (ha : a ∈ l) (hb : b ∈ l) (hf : f a = f b) : a = b := by
+  induction l with
+  | nil => simp at ha
+  | cons x xs ih =>
+    simp only [List.map_cons, List.nodup_cons, List.mem_map, not_exists, not_and] at h
+    rcases List.mem_cons.1 ha with rfl | ha'
+    · rcases List.mem_cons.1 hb with rfl | hb'
+      · rfl
+      · exact absurd hf.symm (h.1 b hb')
+    · rcases List.mem_cons.1 hb with rfl | hb'
+      · exact absurd hf (h.1 a ha')
+      · exact ih h.2 ha' hb'
+
+theorem nodup_entry_unique {c : ClassDesc} (hnd : (c.schema.map (·.1)).Nodup) {e : String × Bool × Schema}
+    (he : e ∈ c.schema) : e.2.2 = entry c e.1 := by
+  unfold entry
+  cases hf : c.schema.find? (fun x => x.1 == e.1) with
+  | none =>
+    rw [List.find?_eq_none] at hf
+    exact absurd (by simp) (hf e he)
+  | some e' =>
+    have hm' : e' ∈ c.schema := List.mem_of_find?_eq_some hf
+    have hk' : e'.1 = e.1 := by simpa using List.find?_some hf
+    have : e' = e := by
+      -- two entries with the same key in a list without duplicate keys are equal
+      exact eq_of_nodup_map (·.1) c.schema hnd hm' he hk'
+    rw [this]
+
+
+theorem dom_accept_not_exception (dk : DomKind) (v : JVal) (h : dk.dom v = .accept) :
+    nanListException dk v = false := by
+  cases v <;> simp [nanListException, JVal.isList]
+  intro e; subst e; simp [DomKind.dom] at h
+
+theorem stepOne_accept (v : JVal) (h : DomKind.stepOne.dom v = .accept) : v = .int 1 := by
+  cases v <;> simp [DomKind.dom, ofBool] at h
+  rename_i i
+  by_cases hi : i = 1
+  · rw [hi]
+  · simp [hi] at h
+
+/-- **a step the documentation accepts is accepted**: for every built-in class of the source and
+    its documented class, a step configuration (as `update_conf` delivers it) naming a registered
+    method, in which every other key is a documented parameter with a value inside its documented
+    domain, passes the class's `check_conf` (no disparity grid being given to a class that refuses
+    grids). -/
+theorem step_accepted_of_documented_accept {kind : String} {c : ClassDesc} {m : String} {d : DocClass}
+    (hkc : (kind, c) ∈ allClasses) (hm : m ∈ c.names) (hd : docClass? kind m = some d)
+    (l r : ImgInfo) (cfg : Dict) (hnd : Dict.nodup cfg = true)
+    (hrw : ∀ kv ∈ cfg, rewriteLeaf kv.2 = kv.2)
+    (hmk : Dict.lookup cfg d.methodKey = some (.str m))
+    (hgr : (l.dispSource.isStr || r.dispSource.isStr) = false)
+    (hv : paramsVerdict d cfg = .accept) :
+    ∃ out, classCheck noOracle c l r cfg = .ok out := by
+  obtain ⟨hagree, hstep⟩ := facts_of_mem hkc hm hd
+  have hfacts := accept_facts_of_mem hkc hm hd
+  have hwf : wfActions c.actions = true := generated_wf_of_mem hkc
+  have hacc := paramsVerdict_accept d cfg hv
+  simp only [acceptFacts, Bool.and_eq_true, List.all_eq_true, decide_eq_true_eq, bne_iff_ne, ne_eq,
+    Bool.not_eq_true', List.contains_eq_mem, decide_eq_false_iff_not] at hfacts
+  obtain ⟨⟨⟨⟨⟨⟨hguards, hsnd⟩, hdefaults⟩, hmethod⟩, hstepDefault⟩, hmkStep⟩, hstepNan⟩ := hfacts
+  simp only [defaultsAgree, Bool.and_eq_true, List.all_eq_true, List.any_eq_true, Bool.or_eq_true,
+    beq_iff_eq] at hagree
+  obtain ⟨⟨⟨⟨hdocDefaults, hdefaultKeysDoc⟩, hschemaKeys⟩, hparamsInSchema⟩, hmethodInSchema⟩ := hagree
+  -- what the Dom-accept hypothesis says about a looked-up key
+  have hlookupAcc : ∀ k v, Dict.lookup cfg k = some v →
+      k = d.methodKey ∨ ∃ p, d.param? k = some p ∧ p.dom.dom v = .accept :=
+    fun k v hl => hacc k v (mem_of_lookup cfg k v hl)
+  -- 1. the sequence runs
+  have hG : GuardsCompatible l r c.actions cfg := by
+    refine ⟨?_, fun _ => hgr⟩
+    intro k g e hmem
+    have hg := hguards _ hmem
+    simp only [Bool.and_eq_true, beq_iff_eq, decide_eq_true_eq] at hg
+    obtain ⟨rfl, rfl⟩ := hg
+    refine ⟨?_, hstepNan, ?_⟩
+    · intro u hl
+      rcases hlookupAcc "step" u hl with hk | ⟨p, hp, hpa⟩
+      · exact absurd hk.symm hmkStep
+      · obtain ⟨hpm, hpn⟩ := param_mem hp
+        simp only [stepFacts, List.all_eq_true] at hstep
+        have hf := hstep p hpm
+        simp only [hpn, bne_self_eq_false, Bool.false_or, Bool.and_eq_true, decide_eq_true_eq] at hf
+        rw [hf.1.1.1] at hpa
+        rw [stepOne_accept u hpa]; simp [pyEq, JVal.toNum?, Num.eq]
+    · intro dflt hdf
+      rw [hdf] at hstepDefault; exact hstepDefault
+  obtain ⟨out, hrun⟩ := runActions_succeeds l r c.actions cfg hwf hG
+  refine ⟨out, ?_⟩
+  rw [classCheck_ok_iff]
+  refine ⟨hrun, ?_⟩
+  rw [dict_accepts_iff]
+  have hlook := runActions_lookup l r c.actions cfg out hwf hrun
+  have hkeysEq := runActions_keys l r c.actions cfg out hwf hrun
+  constructor
+  · -- 2. every schema entry validates on the completed dictionary
+    intro e he
+    rw [hlook e.1]
+    cases hl : Dict.lookup cfg e.1 with
+    | some u =>
+      have hnan : pyEq u (.str "NaN") = false :=
+        pyEq_str_NaN u (hrw (e.1, u) (mem_of_lookup cfg e.1 u hl))
+      simp only [nanFix, hnan, Bool.and_false, Bool.false_eq_true, if_false]
+      rcases hlookupAcc e.1 u hl with hk | ⟨p, hp, hpa⟩
+      · rw [hk, hmk] at hl
+        cases hl
+        have := hmethod m hm e he
+        simpa [hk] using this
+      · obtain ⟨hpm, hpn⟩ := param_mem hp
+        rw [nodup_entry_unique hsnd he]
+        by_cases hs : p.name = "step"
+        · simp only [stepFacts, List.all_eq_true] at hstep
+          have hf := hstep p hpm
+          simp only [hs, bne_self_eq_false, Bool.false_or, Bool.and_eq_true, decide_eq_true_eq] at hf
+          rw [hf.1.1.1] at hpa
+          have hu := stepOne_accept u hpa
+          subst hu
+          have hshape := shape_stepOne (.int 1)
+          have hd1 : DomKind.stepOne.dom (.int 1) = .accept := by decide
+          rw [hd1] at hshape
+          simp only [Agrees, Bool.and_eq_true] at hshape
+          rw [← hpn, hs, hf.1.1.2]
+          exact hshape.2
+        · have hrow := row_of_mem hkc hm hd hpm hs
+          have hpol := parameters_policed _ hrow u (dom_accept_not_exception _ _ hpa)
+          simp only at hpol
+          rw [hpa] at hpol
+          simp only [Agrees] at hpol
+          rw [hpn] at hpol
+          exact hpol
+    | none =>
+      have hdf := hdefaults e he
+      cases hdo : defaultOf c.actions e.1 with
+      | some dflt => simp only [hdo] at hdf ⊢; exact hdf
+      | none =>
+        simp only [hdo, Bool.or_eq_true, beq_iff_eq] at hdf ⊢
+        rcases hdf with h | h
+        · exact h
+        · rw [h, hmk] at hl; cases hl
+  · -- 3. no key outside the schema
+    intro kv hkv
+    have hk : kv.1 ∈ Dict.keys out := List.mem_map_of_mem (f := (·.1)) hkv
+    rw [hkeysEq] at hk
+    have hparamKey : ∀ p ∈ d.params, ∃ e ∈ c.schema, e.1 = p.name := hparamsInSchema
+    rcases List.mem_append.1 hk with h | h
+    · obtain ⟨⟨k', v'⟩, hm', hk'⟩ := List.mem_map.1 h
+      simp only at hk'
+      rcases hacc k' v' hm' with hkm | ⟨p, hp, _⟩
+      · obtain ⟨e, he, hek, _⟩ := hmethodInSchema
+        exact ⟨e, he, by rw [hek, ← hkm, hk']⟩
+      · obtain ⟨hpm, hpn⟩ := param_mem hp
+        obtain ⟨e, he, hen⟩ := hparamKey p hpm
+        exact ⟨e, he, by rw [hen, hpn, hk']⟩
+    · have hdk : kv.1 ∈ defaultKeys c.actions := (List.mem_filter.1 h).1
+      obtain ⟨p, hpm, hpn⟩ := hdefaultKeysDoc kv.1 hdk
+      obtain ⟨e, he, hen⟩ := hparamKey p hpm
+      exact ⟨e, he, by rw [hen, hpn]⟩
+
+
+/-! ### 8. The input-section defaults -/
+
+/-- `default_short_configuration_input`: nodata −9999, mask / classif / segm `None` on both sides,
+    right disparity `None` -/
+theorem input_defaults_documented :
+    inputSchemas.defaults =
+      [("input", .obj [
+        ("left", .obj [("nodata", .int (-9999)), ("mask", .null), ("classif", .null), ("segm", .null)]),
+        ("right", .obj [("nodata", .int (-9999)), ("mask", .null), ("classif", .null), ("segm", .null),
+                        ("disp", .null)])])] := by decide
+
+
+/-! ### 9. The machine's loop on a fresh machine -/
+
+theorem stepCallback_ok {o : Oracle} {fl : MachineFlags} {reg : List KindDesc} {kind : Machine.Kind}
+    {name : String} {stepCfg : JVal} {l r : ImgInfo} {m m' : CState}
+    (h : stepCallback o fl reg kind name stepCfg l r m = .ok m') :
+    ∃ cfg kd out, stepCfg = .obj cfg ∧ kindDesc? reg kind.name = some kd ∧
+      construct o kd l r cfg = .ok out ∧
+      m'.pipelineCfg = Dict.setKey m.pipelineCfg name (.obj out) := by
+  unfold stepCallback at h
+  cases stepCfg with
+  | obj cfg =>
+    simp only at h
+    cases hk : kindDesc? reg kind.name with
+    | none => simp [hk] at h
+    | some kd =>
+      simp only [hk] at h
+      cases hc : construct o kd l r cfg with
+      | error e => cases kind <;> simp [hc] at h <;> (try split at h) <;> simp_all
+      | ok out =>
+        refine ⟨cfg, kd, out, rfl, rfl, hc, ?_⟩
+        cases kind <;> simp only [hc] at h
+        all_goals (try split at h)
+        all_goals (try (cases h; rfl))
+        all_goals (try simp at h)
+        all_goals (try (split at h <;> first | (cases h; rfl) | simp at h))
+  | _ => simp at h
+
+
+theorem setKey_same (d : Dict) (k : String) (v : JVal) (h : Dict.lookup d k = some v) :
+    Dict.setKey d k v = d := by
+  induction d with
+  | nil => simp [Dict.lookup] at h
+  | cons kv rest ih =>
+    obtain ⟨k', v'⟩ := kv
+    by_cases e : k' = k
+    · subst e; simp [Dict.lookup] at h; subst h; simp [Dict.setKey]
+    · simp [Dict.lookup, e] at h; simp [Dict.setKey, e, ih h]
+
+/-- what the first round of the loop leaves in `pipeline_cfg` when the steps are new to it: the
+    steps, appended in the order of the configuration, each holding what `Abstract<Kind>(**cfg)`
+    returned -/
+theorem checkLoop_stores (o : Oracle) (fl : MachineFlags) (reg : List KindDesc) (pipeline : Dict)
+    (l r : ImgInfo) :
+    ∀ (names : List String) (st : Machine.St) (m m' : CState),
+      checkLoop o fl reg pipeline l r st names m = .ok m' → names.Nodup →
+      (∀ n ∈ names, Dict.lookup m.pipelineCfg n = none) →
+      Dict.keys m'.pipelineCfg = Dict.keys m.pipelineCfg ++ names ∧
+      (∀ k, k ∉ names → Dict.lookup m'.pipelineCfg k = Dict.lookup m.pipelineCfg k) ∧
+      (∀ n ∈ names, ∃ kind cfg kd out,
+        Machine.Kind.ofName? (Machine.kindOf n) = some kind ∧
+        Dict.lookup pipeline n = some (.obj cfg) ∧ kindDesc? reg kind.name = some kd ∧
+        construct o kd l r cfg = .ok out ∧ Dict.lookup m'.pipelineCfg n = some (.obj out)) := by
+  intro names
+  induction names with
+  | nil =>
+    intro st m m' h _ _
+    simp [checkLoop] at h
+    subst h
+    simp
+  | cons n ns ih =>
+    intro st m m' h hnd hfresh
+    simp only [checkLoop] at h
+    cases hk : Machine.Kind.ofName? (Machine.kindOf n) with
+    | none => simp [hk] at h
+    | some kind =>
+      simp only [hk] at h
+      cases hdoc : Machine.documented st kind with
+      | none => simp [hdoc] at h
+      | some st' =>
+        simp only [hdoc] at h
+        cases hcb : stepCallback o fl reg kind n ((Dict.lookup pipeline n).getD .null) l r m with
+        | error e => simp [hcb] at h
+        | ok m1 =>
+          simp only [hcb] at h
+          obtain ⟨cfg, kd, out, hobj, hkd, hcons, hpc⟩ := stepCallback_ok hcb
+          have hnd' : ns.Nodup := (List.nodup_cons.1 hnd).2
+          have hnn : n ∉ ns := (List.nodup_cons.1 hnd).1
+          have hln : Dict.lookup m.pipelineCfg n = none := hfresh n (by simp)
+          have hm1 : m1.pipelineCfg = m.pipelineCfg ++ [(n, .obj out)] := by
+            rw [hpc, setKey_absent _ _ _ hln]
+          have hfresh1 : ∀ x ∈ ns, Dict.lookup m1.pipelineCfg x = none := by
+            intro x hx
+            rw [hpc, lookup_setKey]
+            have : n ≠ x := fun e => hnn (e ▸ hx)
+            simp [this, hfresh x (List.mem_cons_of_mem _ hx)]
+          obtain ⟨hkeys, hother, hsteps⟩ := ih st' m1 m' h hnd' hfresh1
+          have hlp : Dict.lookup pipeline n = some (.obj cfg) := by
+            cases hl : Dict.lookup pipeline n with
+            | none => simp [hl] at hobj
+            | some v => simp [hl] at hobj; rw [hobj]
+          refine ⟨?_, ?_, ?_⟩
+          · rw [hkeys, hm1]; simp [Dict.keys]
+          · intro k hk'
+            simp only [List.mem_cons, not_or] at hk'
+            rw [hother k hk'.2, hpc, lookup_setKey]
+            simp [Ne.symm hk'.1]
+          · intro x hx
+            rcases List.mem_cons.1 hx with rfl | hx'
+            · refine ⟨kind, cfg, kd, out, hk, hlp, hkd, hcons, ?_⟩
+              rw [hother _ hnn, hpc, lookup_setKey]; simp
+            · exact hsteps x hx'
+
+
+/-! the right/left round checks the same steps with the images swapped: nothing depends on which
+    image is which except the refusal of grids, which is symmetric -/
+
+theorem runAction_swap (l r : ImgInfo) (cfg : Dict) (a : Action) :
+    runAction l r cfg a = runAction r l cfg a := by
+  cases a <;> simp [runAction, Bool.or_comm]
+
+theorem runActions_swap (l r : ImgInfo) (acts : List Action) :
+    ∀ cfg, runActions l r acts cfg = runActions r l acts cfg := by
+  induction acts with
+  | nil => intro cfg; rfl
+  | cons a rest ih =>
+    intro cfg
+    simp only [runActions, runAction_swap l r cfg a]
+    cases runAction r l cfg a with
+    | error e => rfl
+    | ok cfg' => exact ih cfg'
+
+theorem construct_swap (o : Oracle) (kd : KindDesc) (l r : ImgInfo) (cfg : Dict) :
+    construct o kd l r cfg = construct o kd r l cfg := by
+  have hc : ∀ c : ClassDesc, classCheck o c l r cfg = classCheck o c r l cfg := by
+    intro c; simp only [classCheck, runActions_swap l r]
+  unfold construct
+  simp only [hc]
+
+/-- a round over steps whose completed configuration is already stored leaves `pipeline_cfg` as it is -/
+theorem checkLoop_same (o : Oracle) (fl : MachineFlags) (reg : List KindDesc) (pipeline : Dict)
+    (l r : ImgInfo) :
+    ∀ (names : List String) (st : Machine.St) (m m' : CState),
+      checkLoop o fl reg pipeline l r st names m = .ok m' →
+      (∀ n ∈ names, ∀ kind cfg kd out, Machine.Kind.ofName? (Machine.kindOf n) = some kind →
+        Dict.lookup pipeline n = some (.obj cfg) → kindDesc? reg kind.name = some kd →
+        construct o kd l r cfg = .ok out → Dict.lookup m.pipelineCfg n = some (.obj out)) →
+      m'.pipelineCfg = m.pipelineCfg := by
+  intro names
+  induction names with
+  | nil =>
+    intro st m m' h _
+    simp [checkLoop] at h
+    subst h; rfl
+  | cons n ns ih =>
+    intro st m m' h hstored
+    simp only [checkLoop] at h
+    cases hk : Machine.Kind.ofName? (Machine.kindOf n) with
+    | none => simp [hk] at h
+    | some kind =>
+      simp only [hk] at h
+      cases hdoc : Machine.documented st kind with
+      | none => simp [hdoc] at h
+      | some st' =>
+        simp only [hdoc] at h
+        cases hcb : stepCallback o fl reg kind n ((Dict.lookup pipeline n).getD .null) l r m with
+        | error e => simp [hcb] at h
+        | ok m1 =>
+          simp only [hcb] at h
+          obtain ⟨cfg, kd, out, hobj, hkd, hcons, hpc⟩ := stepCallback_ok hcb
+          have hlp : Dict.lookup pipeline n = some (.obj cfg) := by
+            cases hl : Dict.lookup pipeline n with
+            | none => simp [hl] at hobj
+            | some v => simp [hl] at hobj; rw [hobj]
+          have hsame : m1.pipelineCfg = m.pipelineCfg := by
+            rw [hpc]
+            exact setKey_same _ _ _ (hstored n (by simp) kind cfg kd out hk hlp hkd hcons)
+          have := ih st' m1 m' h (by
+            intro x hx kind' cfg' kd' out' h1 h2 h3 h4
+            rw [hsame]
+            exact hstored x (List.mem_cons_of_mem _ hx) kind' cfg' kd' out' h1 h2 h3 h4)
+          rw [this, hsame]
+
+/-- **`PandoraMachine.check_conf` on a fresh machine** (or one that empties `pipeline_cfg` first):
+    after both rounds `pipeline_cfg` holds exactly the configured steps, in the configured order,
+    each with the dictionary its class returned -/
+theorem machineCheck_fresh (o : Oracle) (fl : MachineFlags) (reg : List KindDesc) (pipeline : Dict)
+    (l r : ImgInfo) (m m' : CState)
+    (hfresh : m.pipelineCfg = [] ∨ fl.resetPipelineCfg = true)
+    (hnd : (Dict.keys pipeline).Nodup)
+    (h : machineCheck o fl reg pipeline l r m = .ok m') :
+    Dict.keys m'.pipelineCfg = Dict.keys pipeline ∧
+    (∀ n ∈ Dict.keys pipeline, ∃ kind cfg kd out,
+      Machine.Kind.ofName? (Machine.kindOf n) = some kind ∧
+      Dict.lookup pipeline n = some (.obj cfg) ∧ kindDesc? reg kind.name = some kd ∧
+      construct o kd l r cfg = .ok out ∧ Dict.lookup m'.pipelineCfg n = some (.obj out)) := by
+  unfold machineCheck at h
+  -- the machine state the first round starts from has an empty pipeline_cfg
+  have hm0 : (if fl.resetPipelineCfg = true then { m with pipelineCfg := [] } else m).pipelineCfg = [] := by
+    rcases hfresh with h0 | h0
+    · by_cases hr : fl.resetPipelineCfg = true <;> simp [hr, h0]
+    · simp [h0]
+  generalize (if fl.resetPipelineCfg = true then { m with pipelineCfg := [] } else m) = m0 at h hm0
+  simp only at h
+  cases h1 : checkLoop o fl reg pipeline l r .begin (Dict.keys pipeline) m0 with
+  | error e => simp [h1] at h
+  | ok m1 =>
+    simp only [h1] at h
+    obtain ⟨hkeys, _, hsteps⟩ := checkLoop_stores o fl reg pipeline l r (Dict.keys pipeline) .begin m0 m1 h1 hnd
+      (by intro n _; simp [hm0, Dict.lookup])
+    rw [hm0] at hkeys
+    simp only [Dict.keys, List.map_nil, List.nil_append] at hkeys
+    by_cases hr : m1.rightDispMap = true
+    · simp only [hr, if_true] at h
+      have hsame := checkLoop_same o fl reg pipeline r l (Dict.keys pipeline) .begin m1 m' h (by
+        intro n hn kind cfg kd out hk hlp hkd hcons
+        obtain ⟨kind', cfg', kd', out', hk', hlp', hkd', hcons', hlook'⟩ := hsteps n hn
+        rw [hk] at hk'; cases hk'
+        rw [hlp] at hlp'; cases hlp'
+        rw [hkd] at hkd'; cases hkd'
+        rw [construct_swap, hcons'] at hcons; cases hcons
+        exact hlook')
+      rw [hsame]
+      exact ⟨hkeys, hsteps⟩
+    · simp only [hr] at h
+      cases h
+      exact ⟨hkeys, hsteps⟩
+
+
+/-! ### 10. `update_conf` -/
+
+/-- a value `update_conf` stores as it is: not a dictionary, not one of the three magic strings -/
+def fixedLeaf (v : JVal) : Bool := !v.isObj && decide (rewriteLeaf v = v)
+
+theorem updateVal_fixedLeaf (g : Bool) (dv : Option JVal) (v : JVal) (h : fixedLeaf v = true) :
+    updateVal g dv v = .ok v := by
+  simp only [fixedLeaf, Bool.and_eq_true, Bool.not_eq_true', decide_eq_true_eq] at h
+  cases v <;> simp [JVal.isObj] at h <;> simp [updateVal, h]
+
+theorem rewriteLeaf_idem (v : JVal) : rewriteLeaf (rewriteLeaf v) = rewriteLeaf v := by
+  unfold rewriteLeaf
+  by_cases h1 : v = .str "NaN"
+  · simp [h1]
+  · by_cases h2 : v = .str "inf"
+    · simp [h2]
+    · by_cases h3 : v = .str "-inf"
+      · simp [h3]
+      · simp [h1, h2, h3]
+
+/-- a leaf of the user's dictionary is stored rewritten (`"NaN"`, `"inf"`, `"-inf"` → floats) -/
+theorem updateVal_leaf (g : Bool) (dv : Option JVal) (v : JVal) (h : v.isObj = false) :
+    updateVal g dv v = .ok (rewriteLeaf v) := by
+  cases v <;> simp [JVal.isObj] at h <;> simp [updateVal]
+
+/-- two dictionaries without duplicate keys, with the same keys in the same order and the same
+    lookups, are equal -/
+theorem dict_ext : ∀ (a b : Dict), Dict.keys a = Dict.keys b → (Dict.keys a).Nodup →
+    (∀ k, Dict.lookup a k = Dict.lookup b k) → a = b := by
+  intro a
+  induction a with
+  | nil => intro b hk _ _; cases b <;> simp [Dict.keys] at hk ⊢
+  | cons x xs ih =>
+    intro b hk hnd hl
+    cases b with
+    | nil => simp [Dict.keys] at hk
+    | cons y ys =>
+      obtain ⟨k, v⟩ := x
+      obtain ⟨k', v'⟩ := y
+      simp only [Dict.keys, List.map_cons, List.cons.injEq] at hk
+      obtain ⟨rfl, hk2⟩ := hk
+      simp only [Dict.keys, List.map_cons, List.nodup_cons] at hnd
+      have hv : v = v' := by
+        have := hl k
+        simpa [Dict.lookup] using this
+      subst hv
+      have : xs = ys := by
+        apply ih ys hk2 hnd.2
+        intro q
+        by_cases e : k = q
+        · subst e
+          have h1 : Dict.lookup xs k = none := (lookup_none_iff xs k).2 hnd.1
+          have h2 : Dict.lookup ys k = none := by
+            apply (lookup_none_iff ys k).2
+            have : Dict.keys ys = Dict.keys xs := hk2.symm
+            rw [this]; exact hnd.1
+          rw [h1, h2]
+        · have := hl q
+          simpa [Dict.lookup, e] using this
+      rw [this]
+
+/-- **`update_conf` on a dictionary of leaves**: the default's keys keep their position, the user's
+    new keys are appended in the user's order, every user value is stored (rewritten), every
+    default the user did not override is kept -/
+theorem updateConf_leaves (g : Bool) :
+    ∀ (items cur : Dict), (∀ kv ∈ items, kv.2.isObj = false) → (Dict.keys items).Nodup →
+      ∃ out, updateConf g cur items = .ok out ∧
+        Dict.keys out = Dict.keys cur ++ (Dict.keys items).filter (fun k => !(Dict.keys cur).contains k) ∧
+        (∀ k, Dict.lookup out k =
+          match Dict.lookup items k with
+          | some v => some (rewriteLeaf v)
+          | none => Dict.lookup cur k) := by
+  intro items
+  induction items with
+  | nil => intro cur _ _; exact ⟨cur, by simp [updateConf], by simp [Dict.keys], by simp [Dict.lookup]⟩
+  | cons kv rest ih =>
+    intro cur hleaf hnd
+    obtain ⟨k, v⟩ := kv
+    have hv : v.isObj = false := hleaf (k, v) (by simp)
+    simp only [Dict.keys, List.map_cons, List.nodup_cons] at hnd
+    obtain ⟨out, hrun, hkeys, hlook⟩ := ih (Dict.setKey cur k (rewriteLeaf v))
+      (fun kv h => hleaf kv (List.mem_cons_of_mem _ h)) hnd.2
+    refine ⟨out, by simp [updateConf, updateVal_leaf g _ v hv, hrun], ?_, ?_⟩
+    · rw [hkeys]
+      cases hl : Dict.lookup cur k with
+      | none =>
+        have hm : k ∉ Dict.keys cur := (lookup_none_iff cur k).1 hl
+        rw [setKey_absent cur k _ hl]
+        simp only [Dict.keys, List.map_append, List.map_cons, List.map_nil, List.filter_cons]
+        simp only [Dict.keys] at hm
+        simp [hm]
+        apply List.filter_congr
+        intro x hx
+        have : x ≠ k := fun e => hnd.1 (e ▸ hx)
+        simp [this]
+      | some old =>
+        have hm : k ∈ Dict.keys cur := by rw [← hasKey_iff_mem_keys]; simp [Dict.hasKey, hl]
+        rw [keys_setKey_present cur k _ (by simp [hl])]
+        simp only [Dict.keys, List.map_cons, List.filter_cons]
+        simp only [Dict.keys] at hm
+        simp [hm]
+    · intro q
+      rw [hlook q]
+      by_cases e : k = q
+      · subst e
+        have : Dict.lookup rest k = none := (lookup_none_iff rest k).2 hnd.1
+        simp [this, Dict.lookup, lookup_setKey]
+      · simp [Dict.lookup, e, lookup_setKey]
+
+
+end Pandora.C05
